@@ -3,9 +3,45 @@ from __future__ import annotations
 
 import ast
 
+from ..cfg import Node
 from ..core import Ctx
-from ..match import arg, call_name, calls, fact_of, facts_at, local_defs, loop_facts, mentions, resolve, single_def, stores
-from ..model import AnalysisError, FuncInfo, ancestors, chain, const_value, enclosing_stmt, norm, parent, strip_cast, walk_no_nested
+from ..match import Fact, _atoms_with_polarity, arg, call_name, calls, expr_context_facts, fact_of, mentions, stores
+from ..match import local_defs as _match_local_defs
+from ..model import NOCONST, AnalysisError, FuncInfo, ancestors, chain, clone, const_value, enclosing_stmt, head, norm, parent, set_parents, strip_cast, walk_no_nested
+
+
+
+def local_defs(fi: FuncInfo, name: str) -> list:
+    """match.local_defs, remembered per function node (the rules below ask for the same locals very often)"""
+    memo = fi.node.__dict__.setdefault("_c17_local_defs", {})
+    if name not in memo:
+        memo[name] = _match_local_defs(fi, name)
+    return memo[name]
+
+
+def single_def(fi: FuncInfo, name: str):
+    """(value, tuple_index) if `name` is a non-parameter local assigned exactly once, else None (as match.single_def)."""
+    if name in fi.params():
+        return None
+    d = local_defs(fi, name)
+    if len(d) == 1 and d[0][1] is not None:
+        return d[0][1], d[0][2]
+    return None
+
+
+def resolve(fi: FuncInfo, expr: ast.AST, depth: int = 4) -> ast.AST:
+    """Follow single-assignment local aliases (as match.resolve)."""
+    if expr is None:
+        return None
+    expr = strip_cast(expr)
+    while depth > 0 and isinstance(expr, ast.Name):
+        d = single_def(fi, expr.id)
+        if d is None or d[1] is not None:
+            break
+        expr = strip_cast(d[0])
+        depth -= 1
+    return expr
+
 
 LEVEL = "other"
 EXPLANATION = (
@@ -16,8 +52,12 @@ EXPLANATION = (
     "solicited, correctly substantiated disclosure and a truthy should_sign for that pseudonym and metadata; database "
     "inserts of attestations/metadata are dominated by verify() under the very key recorded, and never replace a stored "
     "row (the stored rows are the memory of the 'already attested' refusal); token hand-out derives only "
-    "from token_chain[:permissions.get(peer, 0)], permissions written only for the chosen peer.  Expressions are "
-    "compared after substituting single-assignment locals by their definitions, guards are read from the CFG."
+    "from token_chain[:permissions.get(peer, 0)], permissions written only for the chosen peer, the map created empty per "
+    "community; verify(key) is truthy only through the signature primitive for the given key.  Expressions are "
+    "compared after substituting single-assignment locals by their definitions; guards are read from the CFG over feasible "
+    "paths (a multiply assigned verdict local carries its last definition; a tested helper call contributes what holds at "
+    "the helper's returns with that outcome, parameters replaced by the arguments); constructs that moved into private "
+    "helpers are analysed there with the callers' facts."
 )
 
 IC = "ipv8/attestation/identity/community.py"
@@ -46,7 +86,7 @@ def _comp_bound(n: ast.AST) -> set[str]:
     return {x.id for g in n.generators for x in ast.walk(g.target) if isinstance(x, ast.Name)}
 
 
-def _stable_def(fi: FuncInfo, name: str, seen: frozenset = frozenset()) -> ast.AST | None:
+def _stable_def(fi: FuncInfo, name: str, seen: frozenset = frozenset(), tuples: bool = False) -> ast.AST | None:
     """
     The defining expression of local `name` if substituting it for the name is sound: the local is assigned exactly once
     (plain / annotated / walrus assignment, no tuple position) and every local its definition reads is itself never
@@ -55,9 +95,17 @@ def _stable_def(fi: FuncInfo, name: str, seen: frozenset = frozenset()) -> ast.A
     if name in seen:
         return None
     d = single_def(fi, name)
-    if d is None or d[1] is not None:
+    if d is None:
         return None
-    val = strip_cast(d[0])
+    if d[1] is not None:
+        # `a, b = <expr>`: b is <expr>[1] (asked for explicitly; only for a flat target without a starred element)
+        st = local_defs(fi, name)[0][0]
+        tg = st.targets[0] if isinstance(st, ast.Assign) and len(st.targets) == 1 else st.target if isinstance(st, ast.AnnAssign) else None
+        if not tuples or not isinstance(tg, (ast.Tuple, ast.List)) or not all(isinstance(t, ast.Name) for t in tg.elts) or isinstance(strip_cast(d[0]), (ast.Tuple, ast.List)):
+            return None
+        val = ast.Subscript(value=strip_cast(d[0]), slice=ast.Constant(value=d[1]), ctx=ast.Load())
+    else:
+        val = strip_cast(d[0])
     bound: set[str] = set()
     for n in ast.walk(val):
         if isinstance(n, (ast.ListComp, ast.SetComp, ast.DictComp, ast.GeneratorExp)):
@@ -82,7 +130,7 @@ class _Expander(ast.NodeTransformer):
     def visit_Name(self, n: ast.Name):  # noqa: N802
         if not isinstance(n.ctx, ast.Load) or n.id in self.bound:
             return n
-        val = _stable_def(self.fi, n.id, self.seen)
+        val = _stable_def(self.fi, n.id, self.seen, "#tuples" in self.getsub)
         if val is None:
             return n
         return _Expander(self.fi, self.getsub, self.seen | {n.id}).visit(_copy(val))
@@ -185,17 +233,652 @@ def _reaches(cfg, starts, site_ast: ast.AST) -> bool:
     return any(n in r for n in cfg.nodes_for(site_ast))
 
 
+# ------------------------------------------------------------------------------------ feasible paths, followed calls
+def _pair_of(f: Fact):
+    """(atom, outcome) such that fact_of(atom, outcome) is f."""
+    return f.atom, f.pos == fact_of(f.atom, True).pos
+
+
+def _subject(atom: ast.AST, pol: bool):
+    """
+    (expression under test, sat, truthiness, key): the edge `atom is pol` says that the value v of the expression
+    satisfies sat(v).  truthiness is the truth value of the expression itself when the atom is a plain truthiness test,
+    else None.  key identifies the test (for caches).
+    """
+    if isinstance(atom, ast.Compare) and len(atom.ops) == 1 and isinstance(atom.ops[0], (ast.Is, ast.IsNot, ast.Eq, ast.NotEq)):
+        l, op, r = atom.left, atom.ops[0], atom.comparators[0]
+        if const_value(l) is not NOCONST and const_value(r) is NOCONST:
+            l, r = r, l
+        c = const_value(r)
+        if c is not NOCONST and const_value(l) is NOCONST:
+            want = pol != isinstance(op, (ast.IsNot, ast.NotEq))
+            if isinstance(op, (ast.Is, ast.IsNot)):
+                if not (c is None or isinstance(c, bool)):
+                    return l, (lambda v: True), None, ("?",)          # identity with other constants is not decided here
+                return l, (lambda v, c=c, want=want: (v is c) == want), None, ("is", repr(c), want)
+            return l, (lambda v, c=c, want=want: bool(v == c) == want), None, ("eq", repr(c), want)
+    return atom, (lambda v, pol=pol: bool(v) == pol), pol, ("truthy", pol)
+
+
+def _is_generator(fn: ast.AST) -> bool:
+    return any(isinstance(n, (ast.Yield, ast.YieldFrom)) for n in walk_no_nested(fn))
+
+
+class _Frame:
+    """
+    One followed call `caller: ... self.helper(args) ...`: binds the helper's parameters to the caller's argument
+    expressions.  lift(e) rewrites an expression of the helper into the caller's name space: single-assignment locals
+    are replaced by their definitions, never-rebound parameters by the arguments, every other local by a fresh name
+    (so that it can never be confused with a local of the caller).  ok is False when the binding cannot be decided.
+    """
+
+    def __init__(self, caller: FuncInfo, call: ast.Call, hf: FuncInfo, tag: str, getsub: tuple[str, ...] = ()) -> None:
+        self.caller, self.call, self.hf, self.tag, self.getsub = caller, call, hf, tag, getsub
+        self.bind: dict[str, ast.AST] = {}
+        self.star: str | None = None              # *args parameter bound to the remaining positional arguments
+        self.kw: dict[str, ast.AST] = {}
+        self.kwname: str | None = None
+        self.star_args: list = []
+        self.ok = self._bind()
+        self.locals: set[str] = set()
+        for n in ast.walk(hf.node):
+            if isinstance(n, ast.Name) and isinstance(n.ctx, (ast.Store, ast.Del)):
+                self.locals.add(n.id)
+            elif isinstance(n, ast.ExceptHandler) and n.name:
+                self.locals.add(n.name)
+            elif isinstance(n, ast.Lambda):
+                self.locals |= {a.arg for a in [*n.args.posonlyargs, *n.args.args, *n.args.kwonlyargs]}
+        self.locals |= {p for p in hf.params() if p not in self.bind}       # *args / **kwargs that could not be bound
+
+    def _bind(self) -> bool:  # noqa: C901, PLR0911, PLR0912
+        a, call = self.hf.node.args, self.call
+        names = [x.arg for x in [*a.posonlyargs, *a.args]]
+        if any(k.arg is None for k in call.keywords):
+            return False
+        implicit = self.hf.cls is not None and "staticmethod" not in self.hf.decorator_names()
+        if implicit:
+            if not names or not isinstance(call.func, ast.Attribute):
+                return False
+            self.bind[names[0]] = call.func.value
+            names = names[1:]
+        fixed = call.args[:len(names)]
+        if any(isinstance(x, ast.Starred) for x in fixed):
+            return False
+        for n, v in zip(names, fixed):
+            self.bind[n] = v
+        if len(call.args) > len(names):
+            if a.vararg is None:
+                return False
+            self.star, self.star_args = a.vararg.arg, list(call.args[len(names):])
+            if len(self.star_args) == 1 and isinstance(self.star_args[0], ast.Starred):
+                self.bind[self.star] = self.star_args[0].value           # f(*xs): the parameter holds the elements of xs
+            elif not any(isinstance(x, ast.Starred) for x in self.star_args):
+                self.bind[self.star] = ast.Tuple(elts=list(self.star_args), ctx=ast.Load())
+        elif a.vararg is not None:
+            self.star = a.vararg.arg
+            self.bind[self.star] = ast.Tuple(elts=[], ctx=ast.Load())
+        kwonly = [x.arg for x in a.kwonlyargs]
+        for k in call.keywords:
+            if k.arg in self.bind:
+                return False
+            if k.arg not in [*names, *kwonly]:
+                if a.kwarg is None:
+                    return False
+                self.kw[k.arg] = k.value          # collected by **kwargs: read back as kwargs["name"]
+                continue
+            self.bind[k.arg] = k.value
+        self.kwname = a.kwarg.arg if a.kwarg is not None else None
+        defaults = dict(zip(reversed([x.arg for x in [*a.posonlyargs, *a.args]]), reversed(a.defaults)))
+        defaults.update({x.arg: d for x, d in zip(a.kwonlyargs, a.kw_defaults) if d is not None})
+        for n in [*names, *kwonly]:
+            if n not in self.bind:
+                if n not in defaults or const_value(defaults[n]) is NOCONST:
+                    return False
+                self.bind[n] = defaults[n]
+        return True
+
+    def lift(self, e: ast.AST | None) -> ast.AST | None:
+        if e is None:
+            return None
+        e = _expand(self.hf, e, self.getsub)
+        fr = self
+
+        class Sub(ast.NodeTransformer):
+            def visit_Name(self, n):  # noqa: N802
+                if n.id in fr.locals:
+                    return ast.Name(id=fr.tag + n.id, ctx=n.ctx)
+                if n.id in fr.bind and isinstance(n.ctx, ast.Load):
+                    return clone(fr.bind[n.id])
+                return n
+
+            def visit_Subscript(self, n):  # noqa: N802
+                # kwargs["name"] of a never-rebound **kwargs parameter is the keyword argument of that name
+                if isinstance(n.value, ast.Name) and n.value.id == fr.kwname and isinstance(n.ctx, ast.Load) and const_value(n.slice) in fr.kw \
+                        and not _match_local_defs(fr.hf, fr.kwname):
+                    return clone(fr.kw[const_value(n.slice)])
+                return self.generic_visit(n)
+        return Sub().visit(e)
+
+
+def _loop_literal(ctx: Ctx, fi: FuncInfo, it: ast.AST) -> list | None:
+    """the elements of a loop's iterable when it is a short literal sequence of plain names / attributes / constants (a table of callables or keys)"""
+    it = resolve(fi, it)
+    if isinstance(it, ast.Attribute) and isinstance(it.value, ast.Name) and it.value.id in ("self", "cls") and fi.cls is not None:
+        written = any(isinstance(a.ctx, (ast.Store, ast.Del)) for m, f2, a in ctx.repo.attribute_uses(it.attr) if isinstance(a.value, ast.Name) and a.value.id in ("self", "cls"))
+        it = fi.cls.lookup_attr(it.attr) if not written else None
+    if not isinstance(it, (ast.Tuple, ast.List)) or not 1 <= len(it.elts) <= 8:
+        return None
+
+    def plain(x: ast.AST) -> bool:
+        return isinstance(x, (ast.Name, ast.Constant)) or (isinstance(x, ast.Attribute) and plain(x.value))
+    return list(it.elts) if all(plain(x) for x in it.elts) else None
+
+
+def _unrolled(ctx: Ctx, fi: FuncInfo) -> FuncInfo:
+    """
+    fi with every `for x in (a, b, c): BODY` over a literal table replaced by BODY[x:=a]; BODY[x:=b]; BODY[x:=c] (only
+    when BODY neither breaks / continues the loop nor assigns x, and there is no else clause): the same statements are
+    executed in the same order, and each copy of the body names the table entry it works on.
+    """
+    memo = fi.node.__dict__
+    if "_c17_unrolled" in memo:
+        return memo["_c17_unrolled"]
+    memo["_c17_unrolled"] = fi
+    loops = [l for l in walk_no_nested(fi.node) if isinstance(l, ast.For)]
+    if not loops or isinstance(fi.node, ast.Lambda):
+        return fi
+
+    def escapes(body: list) -> bool:
+        todo = list(body)
+        while todo:
+            n = todo.pop()
+            if isinstance(n, (ast.Break, ast.Continue)):
+                return True
+            if isinstance(n, (ast.For, ast.AsyncFor, ast.While)):
+                todo.extend(n.orelse)             # break / continue inside a nested loop belong to that loop
+                continue
+            if isinstance(n, (ast.FunctionDef, ast.AsyncFunctionDef, ast.ClassDef, ast.Lambda)):
+                continue
+            todo.extend(ast.iter_child_nodes(n))
+        return False
+    plan = {}
+    for l in loops:
+        elts = _loop_literal(ctx, fi, l.iter) if not l.orelse and isinstance(l.target, ast.Name) else None
+        if elts is None or escapes(l.body):
+            continue
+        name = l.target.id
+        if any(isinstance(n, ast.Name) and n.id == name and isinstance(n.ctx, (ast.Store, ast.Del)) for st in l.body for n in ast.walk(st)):
+            continue
+        if len(local_defs(fi, name)) != 1 or name in fi.params():
+            continue
+        inside = {id(n) for st in l.body for n in ast.walk(st)}
+        if any(isinstance(n, ast.Name) and n.id == name and isinstance(n.ctx, ast.Load) and id(n) not in inside for n in ast.walk(fi.node)):
+            continue                               # the loop variable is read after the loop
+        plan[(l.lineno, l.col_offset)] = (name, elts)
+    if not plan:
+        return fi
+    new = clone(fi.node)
+
+    class Unroll(ast.NodeTransformer):
+        def visit_For(self, n):  # noqa: N802
+            self.generic_visit(n)
+            key = (n.lineno, n.col_offset)
+            if key not in plan:
+                return n
+            name, elts = plan[key]
+            out = []
+            for e in elts:
+                class Sub(ast.NodeTransformer):
+                    def visit_Name(self, x):  # noqa: N802
+                        return clone(e) if x.id == name and isinstance(x.ctx, ast.Load) else x
+                out.extend(Sub().visit(clone(st)) for st in n.body)
+            return out
+
+        def visit_FunctionDef(self, n):  # noqa: N802
+            return n if n is not new else self.generic_visit(n)
+        visit_AsyncFunctionDef = visit_Lambda = visit_ClassDef = visit_FunctionDef
+    Unroll().visit(new)
+    ast.fix_missing_locations(new)
+    set_parents(new)
+    out = FuncInfo(fi.name, fi.qualname, new, fi.module, fi.cls)
+    new.__dict__["_c17_unrolled"] = out
+    memo["_c17_unrolled"] = out
+    return out
+
+
+def _follow(ctx: Ctx, fi: FuncInfo, call: ast.AST, tag: str, getsub: tuple[str, ...] = (), generators: bool = False) -> _Frame | None:
+    """The frame of a call that has exactly one possible target whose body can be read (method of the own class, module function)."""
+    call = strip_cast(call)
+    if not isinstance(call, ast.Call):
+        return None
+    f = call.func
+    own = isinstance(f, ast.Attribute) and isinstance(f.value, ast.Name) and f.value.id in ("self", "cls")
+    if not own and not isinstance(f, ast.Name):
+        return None
+    try:
+        tg = ctx.repo.resolve_call(fi, call)
+    except Exception:  # noqa: BLE001
+        return None
+    if len(tg) != 1 or tg[0].is_async or tg[0].node is fi.node or isinstance(tg[0].node, ast.Lambda):
+        return None
+    if _is_generator(tg[0].node) and not generators:
+        return None
+    if isinstance(f, ast.Name) and tg[0].name == "__init__":
+        return None
+    fr = _Frame(fi, call, _unrolled(ctx, tg[0]), tag, getsub)
+    return fr if fr.ok else None
+
+
+class _FinalAtom:
+    """The virtual test `the returned expression has the wanted outcome` at a site."""
+    kind = "final"
+
+    def __init__(self, expr, sat, truth, key) -> None:
+        self.expr, self.sat, self.truth, self.key = expr, sat, truth, key
+
+
+def _safe_expr(pred, e: ast.AST) -> bool:
+    try:
+        return bool(pred(e))
+    except AnalysisError:
+        raise
+    except Exception:  # noqa: BLE001
+        return False
+
+
+def _unconditional(node: ast.AST):
+    """the sub-expressions a statement / condition atom evaluates whenever it completes (nothing short-circuited, lazy or nested)"""
+    if isinstance(node, (ast.For, ast.AsyncFor, ast.While, ast.If, ast.With, ast.AsyncWith, ast.Try, ast.FunctionDef, ast.AsyncFunctionDef, ast.ClassDef, ast.ExceptHandler)):
+        return
+    todo = [node]
+    while todo:
+        n = todo.pop()
+        yield n
+        if isinstance(n, ast.BoolOp):
+            todo.append(n.values[0])
+        elif isinstance(n, ast.IfExp):
+            todo.append(n.test)
+        elif isinstance(n, (ast.Lambda, ast.GeneratorExp)):
+            continue
+        elif isinstance(n, (ast.ListComp, ast.SetComp, ast.DictComp)):
+            todo.append(n.generators[0].iter)
+        elif isinstance(n, ast.Compare) and len(n.ops) > 1:
+            todo.extend([n.left, n.comparators[0]])
+        else:
+            todo.extend(ast.iter_child_nodes(n))
+
+
+def _safe(pred, f: Fact) -> bool:
+    try:
+        return bool(pred(f))
+    except AnalysisError:
+        raise
+    except Exception:  # noqa: BLE001
+        return False
+
+
+class _Paths:
+    """
+    The feasible paths from the entry of fi to a site, decided on the CFG.  A local that is assigned in several places
+    and later tested (`verdict = None` / `verdict = "too old"` ... `if verdict is not None: return False`) is followed:
+    the search state carries the definition that last reached each such local, a test edge that the constant of that
+    definition contradicts is never taken, and a test edge taken after a definition `ok = <expr>` also says that <expr>
+    had the tested truth value.  A tested call of a helper whose body can be read contributes what holds at every
+    return of the helper that produces the tested outcome (parameters replaced by the caller's arguments).
+    `final=(expr, sat, truthiness, key)`: only arrivals at the site on which expr satisfies the test count (used for
+    `return <expr>` seen as "returns something truthy").
+    """
+
+    MAXDEPTH = 3
+    MAXTRACKED = 5
+
+    def __init__(self, ctx: Ctx, fi: FuncInfo, site, *, final=None, depth: int = 0, getsub: tuple[str, ...] = (), avoid=()) -> None:  # noqa: C901
+        self.ctx, self.fi, self.cfg, self.depth, self.getsub = ctx, fi, ctx.cfg(fi), depth, getsub
+        self.avoid = set(avoid)
+        if isinstance(site, Node):
+            self.sites, self.context = [site], []
+        else:
+            self.sites = [n for n in self.cfg.nodes_for(site) if self.cfg.reachable(n)]
+            self.context = [_pair_of(f) for f in expr_context_facts(site)]
+        self.site_set = set(self.sites)
+        self.final = _FinalAtom(*final) if final is not None else None
+        self._pairs_cache: dict = {}
+        self._outcome_cache: dict = {}
+        self._norm: dict = {}
+        self._keep: list = []
+        # locals worth following: tested by name somewhere, assigned more than once, every assignment located on the CFG
+        tested: set[str] = set()
+        for n in self.cfg.nodes:
+            if n.kind == "cond":
+                s = strip_cast(_subject(n.ast, True)[0])
+                if isinstance(s, ast.Name):
+                    tested.add(s.id)
+        if final is not None and isinstance(strip_cast(final[0]), ast.Name):
+            tested.add(strip_cast(final[0]).id)
+        self.tracked: list[str] = []
+        self.defs: list[list] = []                # per tracked local: [(value | None, tuple index | None)]
+        self.def_at: dict = {}                    # cfg node -> [(local index, definition index, label or None)]
+        for name in sorted(tested):
+            ds = local_defs(fi, name)
+            if len(ds) < 2 or len(self.tracked) >= self.MAXTRACKED:
+                continue
+            located = []
+            for st, _v, _i in ds:
+                if isinstance(st, (ast.For, ast.AsyncFor)):
+                    ns, lab = [n for n in self.cfg.by_ast.get(id(st), []) if n.kind == "loop"], True
+                elif isinstance(st, ast.ExceptHandler):
+                    ns, lab = [n for n in self.cfg.by_ast.get(id(st), []) if n.kind == "handler"], None
+                else:
+                    ns, lab = [n for n in self.cfg.by_ast.get(id(st), []) if n.kind == "stmt"], None
+                if not ns:
+                    located = None
+                    break
+                located.append((ns, lab))
+            if located is None:
+                continue
+            k = len(self.tracked)
+            self.tracked.append(name)
+            self.defs.append([(v, idx) for st, v, idx in ds])
+            for j, (ns, lab) in enumerate(located):
+                for n in ns:
+                    self.def_at.setdefault(n, []).append((k, j, lab))
+
+    def key(self, a: ast.AST) -> str:
+        t = self._norm.get(id(a))
+        if t is None:
+            t = self._norm[id(a)] = norm(a)
+            self._keep.append(a)
+        return t
+
+    # ---- what is known about a local in a search state
+    def _value(self, name: str, st) -> tuple:
+        """(defining expression | None, tuple index | None) of the local in this state."""
+        if name in self.tracked:
+            k = self.tracked.index(name)
+            return self.defs[k][st[k]] if st[k] >= 0 else (None, None)
+        if local_defs(self.fi, name) and name not in self.fi.params():
+            d = single_def(self.fi, name)
+            if d is not None:
+                return d[0], d[1]
+        return None, None
+
+    def _const_of(self, s: ast.AST, st):
+        s, seen = strip_cast(s), 0
+        while isinstance(s, ast.Name) and seen < 4:
+            v, idx = self._value(s.id, st)
+            if v is None or idx is not None:
+                return NOCONST
+            s, seen = strip_cast(v), seen + 1
+        return const_value(s)
+
+    def _contradicted(self, atom: ast.AST, pol: bool, st) -> bool:
+        s, sat, _, _ = _subject(atom, pol)
+        cv = self._const_of(s, st)
+        return cv is not NOCONST and not sat(cv)
+
+    def pairs(self, atom: ast.AST, pol: bool, st) -> list:
+        """Everything the edge `atom is pol` says in this state, as (atom, outcome) pairs in fi's name space."""
+        ck = (id(atom), pol, st)
+        if ck in self._pairs_cache:
+            return self._pairs_cache[ck]
+        out, work, budget = [], [(atom, pol)], 24
+        while work and budget:
+            a, p = work.pop()
+            budget -= 1
+            out.append((a, p))
+            s, sat, truth, tk = _subject(a, p)
+            s = strip_cast(s)
+            idx, hops = None, 0
+            while isinstance(s, ast.Name) and hops < 4:
+                v, idx = self._value(s.id, st)
+                if v is None:
+                    s = None
+                    break
+                s, hops = strip_cast(v), hops + 1
+                if idx is not None:
+                    break
+            if s is None:
+                continue
+            if hops and truth is not None and idx is None:
+                work.extend(_pair_of(f) for f in _atoms_with_polarity(s, truth))
+                continue
+            if isinstance(s, ast.Call):
+                out.extend(self.outcome(s, sat, truth, idx, tk))
+        self._pairs_cache[ck] = out
+        return out
+
+    def outcome(self, call: ast.Call, sat, truth, idx, tk) -> list:  # noqa: C901
+        """What holds in fi whenever the followed call returns a value v (component idx of it) with sat(v)."""
+        if self.depth >= self.MAXDEPTH:
+            return []
+        ck = (id(call), idx, tk)
+        if ck in self._outcome_cache:
+            return self._outcome_cache[ck]
+        self._outcome_cache[ck] = []
+        fr = _follow(self.ctx, self.fi, call, f"h{self.depth + 1}_", self.getsub)
+        if fr is None:
+            return []
+        hf = fr.hf
+        hcfg = self.ctx.cfg(hf)
+        rets = [r for r in walk_no_nested(hf.node) if isinstance(r, ast.Return)]
+        retnodes = [n for r in rets for n in hcfg.nodes_for(r)]
+        falls = [u for u, lab in hcfg.exit.pred if not isinstance(u.ast, ast.Return) and hcfg.reachable(u)]
+        per = []
+        kw = {"depth": self.depth + 1, "getsub": self.getsub}
+        for r in rets:
+            v = resolve(hf, r.value) if r.value is not None else ast.Constant(value=None)
+            if idx is not None:
+                v = v.elts[idx] if isinstance(v, ast.Tuple) and idx < len(v.elts) and not any(isinstance(x, ast.Starred) for x in v.elts) else None
+            if v is not None and const_value(v) is not NOCONST:
+                if not sat(const_value(v)):
+                    continue
+                p = _Paths(self.ctx, hf, r, **kw)
+            else:
+                p = _Paths(self.ctx, hf, r, final=(v, sat, truth, tk) if v is not None else None, **kw)
+            if p.sites:
+                per.append((p, p.all_pairs()))
+        if falls and sat(None) and idx is None:
+            p = _Paths(self.ctx, hf, hcfg.exit, avoid=retnodes, **kw)
+            per.append((p, p.all_pairs()))
+        res = []
+        if per:
+            lifted = []
+            for p, ps in per:
+                d = {}
+                for a, q in ps:
+                    la = fr.lift(a)
+                    d[(norm(la), q)] = (la, q)
+                lifted.append(d)
+            for k, (la, q) in lifted[0].items():
+                if all(k in other for other in lifted[1:]):
+                    res.append((la, q))
+            if len(lifted) > 1 and all(lifted):
+                # what the different returns establish beyond that, as one alternative per return
+                def conj(d: dict) -> ast.AST:
+                    vals = [la if q else ast.UnaryOp(op=ast.Not(), operand=la) for la, q in list(d.values())[:16]]
+                    return vals[0] if len(vals) == 1 else ast.BoolOp(op=ast.And(), values=vals)
+                res.append((ast.BoolOp(op=ast.Or(), values=[conj(d) for d in lifted]), True))
+        self._outcome_cache[ck] = res
+        return res
+
+    # ---- search
+    def _search(self, accept, *, starts=None, targets=None, visit=None, through=None) -> bool:  # noqa: C901, PLR0912
+        """Is a target (default: the site) reached on a feasible path that takes no condition edge accepted by accept(u, lab, st)?"""
+        targets = self.site_set if targets is None else set(targets)
+        init = tuple([-1] * len(self.tracked))
+        todo = [(self.cfg.entry, init)] if starts is None else [(s, init) for s in starts]
+        seen = set()
+        while todo:
+            u, st = todo.pop()
+            if (u, st) in seen or u in self.avoid:
+                continue
+            seen.add((u, st))
+            gated = u in self.site_set and self.final is not None
+            alive = gated and not self._final_contradicted(st)
+            if alive and visit is not None:
+                visit(self.final, None, st)
+            if u in targets:
+                if not gated:
+                    return True
+                if alive and not accept(self.final, None, st):
+                    return True
+                continue
+            done = through is not None and u.ast is not None and through(u)
+            for v, lab in u.succ:
+                if done and lab != "exc":
+                    continue                      # the path has completed a node that settles the question
+                if lab in (True, False) and u.kind == "cond":
+                    if self._contradicted(u.ast, lab, st):
+                        continue
+                    if visit is not None:
+                        visit(u, lab, st)
+                    if accept(u, lab, st):
+                        continue
+                elif lab in (True, False) and u.kind == "loop" and accept(u, lab, st):
+                    continue
+                st2 = st
+                if lab != "exc" and u in self.def_at:
+                    l2 = list(st)
+                    for k, j, only in self.def_at[u]:
+                        if only is None or only is lab:
+                            l2[k] = j
+                    st2 = tuple(l2)
+                todo.append((v, st2))
+        return False
+
+    def _final_contradicted(self, st) -> bool:
+        cv = self._const_of(self.final.expr, st)
+        if cv is not NOCONST and not self.final.sat(cv):
+            return True
+        if self.final.truth is not None:
+            # `return ok and <more>` counts as truthy only where every conjunct can be
+            return any(self._contradicted(*_pair_of(f), st) for f in _atoms_with_polarity(self.final.expr, self.final.truth))
+        return False
+
+    def _final_pairs(self, expr: ast.AST, sat, truth, tk, st, depth: int = 0) -> list:
+        """what `expr satisfies the test` says in this state"""
+        expr = strip_cast(expr)
+        if isinstance(expr, ast.IfExp) and depth < 4:
+            def possible(x: ast.AST) -> bool:
+                cv = self._const_of(x, st)
+                return cv is NOCONST or bool(sat(cv))
+            a, b = possible(expr.body), possible(expr.orelse)
+            if a != b:
+                out = []
+                for f in _atoms_with_polarity(expr.test, a):
+                    out.extend(self.pairs(*_pair_of(f), st))
+                return out + self._final_pairs(expr.body if a else expr.orelse, sat, truth, tk, st, depth + 1)
+            return []
+        if truth is None:
+            s, idx, hops = expr, None, 0
+            while isinstance(s, ast.Name) and hops < 4 and idx is None:
+                v, idx = self._value(s.id, st)
+                if v is None:
+                    break
+                s, hops = strip_cast(v), hops + 1
+            if isinstance(s, ast.IfExp) and idx is None and hops:
+                return self._final_pairs(s, sat, truth, tk, st, depth + 1)
+            return self.outcome(s, sat, None, idx, tk) if isinstance(s, ast.Call) else []
+        out = []
+        for f in _atoms_with_polarity(expr, truth):
+            out.extend(self.pairs(*_pair_of(f), st))
+        return out
+
+    def edge_pairs(self, u, lab, st) -> list:
+        if isinstance(u, _FinalAtom):
+            ck = ("final", st)
+            if ck not in self._pairs_cache:
+                self._pairs_cache[ck] = self._final_pairs(u.expr, u.sat, u.truth, u.key, st)
+            return self._pairs_cache[ck]
+        if u.kind != "cond":
+            return []
+        return self.pairs(u.ast, lab, st)
+
+    def holds(self, pred) -> bool:
+        """pred(Fact) is true of something that every feasible path to the site establishes."""
+        if not self.sites:
+            return False
+        if any(_safe(pred, fact_of(a, p)) for a, p in self.context):
+            return True
+        memo: dict = {}
+
+        def sat(f: Fact, depth: int = 0) -> bool:
+            if _safe(pred, f):
+                return True
+            # (A or B) holds and each alternative establishes it
+            if depth < 3 and f.op == "truthy" and f.pos and isinstance(f.left, ast.BoolOp) and isinstance(f.left.op, ast.Or):
+                return all(any(sat(g, depth + 1) for g in (_atoms_with_polarity(v, True) or [fact_of(v, True)])) for v in f.left.values)
+            return False
+
+        def ok(a, p) -> bool:
+            k = (id(a), p)
+            if k not in memo:
+                memo[k] = sat(fact_of(a, p))
+            return memo[k]
+        return not self._search(lambda u, lab, st: any(ok(a, p) for a, p in self.edge_pairs(u, lab, st)))
+
+    def evaluates(self, wanted) -> bool:
+        """
+        Every feasible path to the site completes (leaves without an exception) a statement / condition that evaluates,
+        unconditionally, a sub-expression accepted by wanted(expr) - e.g. `table[key]`, which raises when key is absent.
+        """
+        memo: dict = {}
+
+        def node_has(u) -> bool:
+            if u not in memo:
+                memo[u] = u.kind in ("stmt", "cond") and any(_safe_expr(wanted, x) for x in _unconditional(u.ast))
+            return memo[u]
+        return bool(self.sites) and not self._search(lambda u, lab, st: False, through=node_has)
+
+    def passes(self, edge) -> bool:
+        """Every feasible path to the site takes a CFG edge with edge(u, lab)."""
+        return bool(self.sites) and not self._search(lambda u, lab, st: not isinstance(u, _FinalAtom) and edge(u, lab))
+
+    def all_pairs(self) -> list:
+        """(atom, outcome) pairs that hold on every feasible path to the site."""
+        if not self.sites:
+            return []
+        cands: dict = {}
+
+        def visit(u, lab, st) -> None:
+            for a, p in self.edge_pairs(u, lab, st):
+                cands.setdefault((self.key(a), p), (a, p))
+        self._search(lambda u, lab, st: False, visit=visit, targets=())
+        out = list(self.context)
+        for k, (a, p) in cands.items():
+            if not self._search(lambda u, lab, st, k=k: any((self.key(x), q) == k for x, q in self.edge_pairs(u, lab, st))):
+                out.append((a, p))
+        return out
+
+    def facts(self) -> list[Fact]:
+        return [fact_of(a, p) for a, p in self.all_pairs()]
+
+    def escapes_from(self, starts, targets) -> bool:
+        """Can a target node be reached from the start nodes on a feasible path (definitions made on the way are followed)?"""
+        return self._search(lambda u, lab, st: False, starts=starts, targets=targets)
+
+
 # ------------------------------------------------------------------------------------ registration table
 def known_hash_layout(ctx: Ctx) -> dict[str, int]:
     fi = ctx.repo.method("IdentityCommunity", "add_known_hash", IC)
     sts = [s for s, t in stores(fi, "self.known_attestation_hashes[]") if isinstance(s, ast.Assign) and len(s.targets) == 1]
+    owner, lift = fi, (lambda e: e)
+    if not sts:
+        # the store lives in a helper that add_known_hash calls: read it there, in add_known_hash's terms
+        for c in calls(fi):
+            fr = _follow(ctx, fi, c, "k_")
+            st2 = [s for s, t in stores(fr.hf, "self.known_attestation_hashes[]") if isinstance(s, ast.Assign) and len(s.targets) == 1] if fr else []
+            if st2:
+                sts, owner, lift = st2, fr.hf, fr.lift
+                break
     ctx.anchor(sts, "known_attestation_hashes[...] = (...) in add_known_hash")
-    tup = resolve(fi, sts[0].value)
+    tup = resolve(owner, sts[0].value)
     if not isinstance(tup, ast.Tuple):
         raise AnalysisError("anchor-lost: add_known_hash no longer stores a tuple literal")
     p = fi.params()
     layout = {}
     for i, e in enumerate(tup.elts):
+        e = lift(e)
         t = _x(fi, e)
         if t == p[2]:
             layout["name"] = i
@@ -210,7 +893,7 @@ def known_hash_layout(ctx: Ctx) -> dict[str, int]:
     if set(layout) != {"name", "public_key", "metadata", "time"}:
         raise AnalysisError(f"anchor-lost: add_known_hash tuple layout {layout}")
     # the key is (a padded form of) the attribute hash parameter and involves no other argument
-    key_names = {n.id for n in ast.walk(_expand(fi, sts[0].targets[0].slice)) if isinstance(n, ast.Name)}
+    key_names = {n.id for n in ast.walk(_expand(fi, lift(sts[0].targets[0].slice))) if isinstance(n, ast.Name)}
     key_ok = p[1] in key_names and not key_names & set(p[2:])
     ctx.check(key_ok, "should-sign", fi, sts[0], "registration keyed by the attribute hash", "registration is keyed by something other than the attribute hash")
     return layout
@@ -220,22 +903,132 @@ def _is_time_call(e: ast.AST) -> bool:
     return isinstance(e, ast.Call) and chain(e.func) in ("time", "time.time") and not e.args and not e.keywords
 
 
+def _approving_exits(ctx: Ctx, fi: FuncInfo, sat=None, truth=True, tk=("truthy", True), *, depth: int = 0, getsub: tuple[str, ...] = ()) -> list:
+    """
+    One _Paths per way in which fi can hand back a value v with sat(v) (default: a truthy value): every `return` whose
+    value is not a constant of the other kind (a non-constant value counts on the arrivals where it passes the test), and
+    falling off the end when None passes the test.
+    """
+    sat = sat or (lambda v: bool(v))
+    cfg = ctx.cfg(fi)
+    out = []
+    rets = [r for r in walk_no_nested(fi.node) if isinstance(r, ast.Return)]
+    for r in rets:
+        v = resolve(fi, r.value) if r.value is not None else ast.Constant(value=None)
+        if const_value(v) is not NOCONST:
+            if sat(const_value(v)):
+                out.append(_Paths(ctx, fi, r, depth=depth, getsub=getsub))
+        else:
+            out.append(_Paths(ctx, fi, r, final=(r.value, sat, truth, tk), depth=depth, getsub=getsub))
+    if sat(None):
+        falls = [u for u, lab in cfg.exit.pred if not isinstance(u.ast, ast.Return) and cfg.reachable(u)]
+        if falls:
+            out.append(_Paths(ctx, fi, cfg.exit, avoid=[n for r in rets for n in cfg.nodes_for(r)], depth=depth, getsub=getsub))
+    return [p for p in out if p.sites]
+
+
+def _attested_refusal(ctx: Ctx, fi: FuncInfo, approving: list, text, local, over: str, authority, mykey: str, single_key: bool, ga_ret: str, report, depth: int = 0) -> bool:  # noqa: C901, PLR0912, PLR0913
+    """
+    None of the approving arrivals (each a _Paths of fi) is possible once one of the attestations over the metadata is by
+    us.  text(e): canonical text of an expression of fi in should_sign's name space; local(name): what a local of fi is
+    called there; authority(name): canonical `get_authority(<name>)`.
+    """
+    cfg = ctx.cfg(fi)
+
+    def authority_eq(e: ast.AST, att: str) -> bool:
+        return isinstance(e, ast.Compare) and len(e.ops) == 1 and isinstance(e.ops[0], ast.Eq) and \
+            {text(e.left), text(e.comparators[0])} == {authority(local(att)), mykey}
+
+    def comp_over(g: ast.AST):
+        """loop variable of a one-generator comprehension over the attestations, else None"""
+        if isinstance(g, (ast.GeneratorExp, ast.ListComp, ast.SetComp)) and len(g.generators) == 1:
+            c = g.generators[0]
+            if not c.is_async and not c.ifs and isinstance(c.target, ast.Name) and text(c.iter) == over:
+                return c.target.id
+        return None
+
+    def refusing_fact(f: Fact) -> bool:
+        """the fact says: no attestation over the metadata has us as its authority"""
+        e = f.left
+        if f.op == "truthy" and not f.pos and isinstance(e, ast.Call) and chain(e.func) == "any" and len(e.args) == 1 and not e.keywords:
+            att = comp_over(e.args[0])
+            return att is not None and authority_eq(e.args[0].elt, att)
+        if f.op == "truthy" and f.pos and isinstance(e, ast.Call) and chain(e.func) == "all" and len(e.args) == 1 and not e.keywords:
+            att = comp_over(e.args[0])
+            elt = e.args[0].elt if att is not None else None
+            if isinstance(elt, ast.Compare) and len(elt.ops) == 1 and isinstance(elt.ops[0], ast.NotEq):
+                return authority_eq(ast.Compare(left=elt.left, ops=[ast.Eq()], comparators=elt.comparators), att)
+            return False
+        if f.op == "in" and not f.pos and text(f.left) == mykey:
+            att = comp_over(f.right)
+            return att is not None and text(f.right.elt) == authority(local(att))
+        return False
+
+    def any_over_bytes(e: ast.AST) -> bool:
+        return isinstance(e, ast.Call) and chain(e.func) == "any" and mykey in text(e) and "get_authority" in norm(e) and \
+            any(isinstance(g, (ast.GeneratorExp, ast.ListComp)) and any("get_authority" in norm(c.iter) for c in g.generators) for g in ast.walk(e))
+
+    loops = [l for l in walk_no_nested(fi.node) if isinstance(l, (ast.For, ast.AsyncFor)) and isinstance(l.target, ast.Name) and text(l.iter) == over]
+    verdict = True
+    for p in approving:
+        ok = False
+        if p.holds(lambda f: refusing_fact(_expanded_fact(fi, f, p.getsub))):
+            ok = single_key
+        for l in loops:
+            att = l.target.id
+            loopnodes = [n for n in cfg.by_ast.get(id(l), []) if n.kind == "loop"]
+            refused = False
+            for n in cfg.nodes:
+                if n.kind != "cond" or l not in list(ancestors(n.ast)):
+                    continue
+                f = fact_of(n.ast, True)
+                if f.op == "eq" and {text(f.left), text(f.right)} == {authority(local(att)), mykey}:
+                    # once the comparison succeeds no approving arrival is left
+                    if not p.escapes_from([v for v, la in n.succ if la is f.pos], p.sites):
+                        refused = refused or single_key
+                elif any_over_bytes(_expand(fi, n.ast, p.getsub)):
+                    if single_key:
+                        report(fi, n.ast, f"the 'already attested' refusal iterates over get_authority(), which returns ONE key as `{ga_ret}`: each element is an int and never "
+                                          "equals our key (bytes), so the refusal is dead code and a replayed disclosure is attested again")
+                    elif not p.escapes_from([v for v, la in n.succ if la is True], p.sites):
+                        refused = True
+            # the approving arrival lies behind the exhausted loop (every attestation over this metadata has been looked at)
+            after = bool(loopnodes) and p.passes(lambda u, lab: u in loopnodes and lab is False)
+            ok = ok or (refused and after)
+        if not ok and depth < 2:
+            # the decision is taken by a helper whose verdict every approving arrival has tested
+            for a, q in p.all_pairs():
+                s, sat, truth, tk = _subject(a, q)
+                fr = _follow(ctx, fi, s, f"a{depth + 1}_", p.getsub)
+                if fr is None:
+                    continue
+                sub = _approving_exits(ctx, fr.hf, sat, truth, tk, depth=depth + 1, getsub=p.getsub)
+                if not sub:
+                    continue
+                if _attested_refusal(ctx, fr.hf, sub, lambda e, fr=fr: text(fr.lift(e)), lambda n, fr=fr: local(fr.tag + n if n in fr.locals else n),
+                                     over, authority, mykey, single_key, ga_ret, report, depth + 1):
+                    ok = True
+                    break
+        verdict = verdict and ok
+    return verdict and bool(approving)
+
+
+def _expanded_fact(fi: FuncInfo, f: Fact, getsub: tuple[str, ...] = ()) -> Fact:
+    """The same fact with single-assignment locals of fi replaced by their definitions."""
+    a, p = _pair_of(f)
+    return fact_of(_expand(fi, a, getsub), p)
+
+
 def rule_should_sign(ctx: Ctx) -> None:  # noqa: C901, PLR0912, PLR0915
     repo = ctx.repo
     lay = known_hash_layout(ctx)
-    fi = repo.method("IdentityCommunity", "should_sign", IC)
-    cfg = ctx.cfg(fi)
+    fi = _unrolled(ctx, repo.method("IdentityCommunity", "should_sign", IC))
     pseud, meta = fi.params()[1], fi.params()[2]
-    trues = [r for r in walk_no_nested(fi.node) if isinstance(r, ast.Return) and const_value(resolve(fi, r.value)) is True]
-    others = [r for r in walk_no_nested(fi.node) if isinstance(r, ast.Return) and const_value(resolve(fi, r.value)) not in (True, False)]
-    ctx.check(len(trues) == 1 and not others, "should-sign", fi, fi.node, "should_sign has exactly one `return True` and otherwise returns False",
-              "should_sign has several approving exits (or a non-constant verdict)")
-    if len(trues) != 1:
-        return
-    site = trues[0]
-    fs = facts_at(cfg, site)
     TABLE = "self.known_attestation_hashes"
-    GS = (TABLE,)
+    GS = (TABLE, _c(f"{pseud}.tree.elements"), "#tuples")      # tables read with .get(), locals unpacked from a tuple
+    approving = _approving_exits(ctx, fi, getsub=GS)
+    ctx.check(bool(approving), "should-sign", fi, fi.node, "should_sign has an approving exit; every one of them is examined",
+              "should_sign has no approving exit that can be examined")
     # canonical (fully substituted) spellings; they mention only parameters and attributes of self
     AH = _c(f"{pseud}.tree.elements[{meta}.token_pointer].content_hash")
     TR = _c(f"json.loads({meta}.serialized_json_dict)")
@@ -255,19 +1048,23 @@ def rule_should_sign(ctx: Ctx) -> None:  # noqa: C901, PLR0912, PLR0915
         if not local_defs(fi, name) and name not in fi.params():
             return True
         return X(ast.Name(id=name, ctx=ast.Load())) in canon
-    key_forms = (_c(f"set({TR}.keys())"), _c(f"{TR}.keys()"), TR, _c(f"set({TR})"), _c(f"frozenset({TR}.keys())"), _c(f"list({TR}.keys())"))
+    key_forms = (_c(f"set({TR}.keys())"), _c(f"{TR}.keys()"), TR, _c(f"set({TR})"), _c(f"frozenset({TR}.keys())"), _c(f"list({TR}.keys())"), _c(f"frozenset({TR})"))
+    set_forms = (key_forms[0], key_forms[3], key_forms[4], key_forms[6])
     ctx.check(stable_params and local_is("attribute_hash", AH) and local_is("transaction", TR), "should-sign", fi, fi.node,
               "attribute hash = content hash of the token the metadata points to; transaction = the metadata's json",
               "should_sign judges a hash / json other than the disclosed metadata's")
 
-    def registered(f) -> bool:
-        if f.op == "in" and f.pos and X(f.left) == AH and X(f.right) == TABLE:
+    def present(f, table: str, key: str) -> bool:
+        """the fact says that `key` is in `table`: key in table / table.get(key) is not None / table.get(key) truthy (entries are tuples, tokens)"""
+        if f.op == "in" and f.pos and X(f.left) == key and X(f.right) in (table, _c(f"{table}.keys()")):
             return True
-        # entry = table.get(hash) ... `if not entry` / `if entry is None` (entries are non-empty tuples)
-        raw = _x(fi, f.left)
-        if raw in (_c(f"{TABLE}.get({AH})"), _c(f"{TABLE}.get({AH}, None)")):
-            return (f.op == "truthy" and f.pos) or (f.op == "is" and not f.pos and const_value(f.right) is None)
+        raw = _x(fi, f.left, tuple(g for g in GS if g != table))
+        if raw in (_c(f"{table}.get({key})"), _c(f"{table}.get({key}, None)")):
+            return (f.op == "truthy" and f.pos) or (f.op == "is" and not f.pos and f.right is not None and const_value(f.right) is None)
         return False
+
+    def registered(f) -> bool:
+        return present(f, TABLE, AH)
 
     def young(f) -> bool:
         if f.op != "lt" or f.pos:
@@ -279,14 +1076,10 @@ def rule_should_sign(ctx: Ctx) -> None:  # noqa: C901, PLR0912, PLR0915
         # not (300 < time() - reg_time)
         if const_value(l) == 300 and isinstance(r, ast.BinOp) and isinstance(r.op, ast.Sub):
             return _is_time_call(r.left) and norm(r.right) == reg("time")
+        # not (reg_time < time() - 300)
+        if norm(l) == reg("time") and isinstance(r, ast.BinOp) and isinstance(r.op, ast.Sub):
+            return _is_time_call(r.left) and const_value(r.right) == 300 and not isinstance(const_value(r.right), bool)
         return False
-    reasons = {
-        "token pointer known": any(f.op == "in" and f.pos and X(f.left) == _c(f"{meta}.token_pointer") and X(f.right) == _c(f"{pseud}.tree.elements") for f in fs),
-        "hash registered": any(registered(f) for f in fs),
-        "subject key == registered key": any(f.op == "eq" and f.pos and {X(f.left), X(f.right)} == {SUBJ, reg("public_key")} for f in fs),
-        "registration younger than 300 s": any(young(f) for f in fs),
-        "name == registered name": any(f.op == "eq" and f.pos and {X(f.left), X(f.right)} == {_c(f"{TR}['name']"), reg("name")} for f in fs),
-    }
 
     def has_key(f, k: str) -> bool:
         if f.op == "in" and f.pos and const_value(f.left) == k and X(f.right) in key_forms:
@@ -296,92 +1089,144 @@ def rule_should_sign(ctx: Ctx) -> None:  # noqa: C901, PLR0912, PLR0915
             rr = _expand(fi, f.right)
             lit = _const_set(rr) if isinstance(rr, ast.Set) else None
             return lit is not None and k in lit and X(f.left) in key_forms[:2]
-        if f.op == "truthy" and f.pos and isinstance(f.left, ast.Call) and isinstance(f.left.func, ast.Attribute) and len(f.left.args) == 1 and not f.left.keywords:
+        if f.op == "truthy" and isinstance(f.left, ast.Call) and isinstance(f.left.func, ast.Attribute) and len(f.left.args) == 1 and not f.left.keywords:
             recv, a = f.left.func.value, f.left.args[0]
-            if f.left.func.attr == "issubset" and isinstance(recv, ast.Set):
+            if f.pos and f.left.func.attr == "issubset" and isinstance(recv, ast.Set):
                 return k in (_const_set(recv) or ()) and X(a) in key_forms
-            if f.left.func.attr == "issuperset" and X(recv) in (key_forms[0], key_forms[3], key_forms[4]):
-                return k in (_const_set(a) or ())
+            if f.pos and f.left.func.attr == "issuperset" and X(recv) in set_forms:
+                return k in (_const_set(_expand(fi, a)) or ())
+            # not ({"name", ...} - keys)   /   not {"name", ...}.difference(keys)
+            if not f.pos and f.left.func.attr == "difference" and isinstance(recv, ast.Set):
+                return k in (_const_set(recv) or ()) and X(a) in key_forms
+        if f.op == "truthy" and not f.pos and isinstance(f.left, ast.BinOp) and isinstance(f.left.op, ast.Sub) and isinstance(f.left.left, ast.Set):
+            return k in (_const_set(f.left.left) or ()) and X(f.left.right) in (*set_forms, key_forms[1])
+        if f.op == "truthy" and f.pos and isinstance(f.left, ast.Call) and chain(f.left.func) == "all" and len(f.left.args) == 1 and not f.left.keywords:
+            # all(k in keys for k in ("name", "date", "schema"))
+            g = f.left.args[0]
+            if isinstance(g, (ast.GeneratorExp, ast.ListComp)) and len(g.generators) == 1 and not g.generators[0].ifs and isinstance(g.generators[0].target, ast.Name):
+                c, var = g.elt, g.generators[0].target.id
+                lit = _const_set(_expand(fi, g.generators[0].iter))
+                return lit is not None and k in lit and isinstance(c, ast.Compare) and len(c.ops) == 1 and isinstance(c.ops[0], ast.In) \
+                    and isinstance(c.left, ast.Name) and c.left.id == var and X(c.comparators[0]) in key_forms
         return False
-    for k in ("name", "date", "schema"):
-        reasons[f"required key {k}"] = any(has_key(f, k) for f in fs)
-    reasons["requested_keys = keys of the transaction"] = local_is("requested_keys", *key_forms)
-    for what, ok in reasons.items():
-        ctx.check(ok, "should-sign", fi, site, f"`return True` dominated by: {what}",
-                  f"should_sign can approve although the condition `{what}` does not hold", [str(f) for f in fs])
-    # registered metadata present => extra fields equal: every path to `return True` takes the "no metadata registered" edge
-    # or the "extra fields == registered metadata" edge
-    absent_edges: dict = {}
-    equal_edges: dict = {}
-    for n in cfg.nodes:
-        if n.kind != "cond":
-            continue
-        f = fact_of(n.ast, True)
-        if f.op == "is" and const_value(f.right) is None and X(f.left) == reg("metadata"):
-            absent_edges[n] = f.pos            # label under which `... is None` holds
-        elif f.op == "eq":
-            for a, b in ((f.left, f.right), (f.right, f.left)):
-                if X(b) == reg("metadata") and _extra_fields_of(fi, _expand(fi, a, GS), TR):
-                    equal_edges[n] = f.pos     # label under which the two are equal
-    ok = bool(absent_edges) and bool(equal_edges) and _edge_dominated(
-        cfg, site, lambda u, v, lab: (u in absent_edges and lab is absent_edges[u]) or (u in equal_edges and lab is equal_edges[u]))
-    ctx.check(ok, "should-sign", fi, site, "`return True` unreachable when registered metadata exists and differs from the extra fields",
-              "should_sign approves metadata that differs from the metadata fixed at registration")
-    # already attested by us
+
+    def absent(f) -> bool:
+        return f.op == "is" and f.pos and const_value(f.right) is None and X(f.left) == reg("metadata")
+
+    def equal(f) -> bool:
+        if f.op != "eq" or not f.pos:
+            return False
+        return any(X(b) == reg("metadata") and _extra_fields_of(fi, _expand(fi, a, GS), TR) for a, b in ((f.left, f.right), (f.right, f.left)))
+
+    def parts(e: ast.AST, pol: bool) -> list:
+        return _atoms_with_polarity(e, pol) or [fact_of(e, pol)]
+
+    def meta_ok(f, depth: int = 0) -> bool:
+        if absent(f) or equal(f):
+            return True
+        if f.op == "truthy" and isinstance(f.left, ast.BoolOp) and depth < 3:
+            if isinstance(f.left.op, ast.Or) == f.pos:
+                # (a or b) holds / (a and b) fails: one member decides, every member has to be one of the two admissions
+                return all(any(meta_ok(g, depth + 1) for g in parts(v, f.pos)) for v in f.left.values)
+        if f.op == "truthy" and isinstance(f.left, ast.IfExp) and f.pos and depth < 3:
+            # `equal if registered is not None else True`: each branch that can be truthy has to be an admission
+            def branch(pol: bool, br: ast.AST) -> bool:
+                cv = const_value(br)
+                if cv is not NOCONST and not cv:
+                    return True
+                own = [] if cv is not NOCONST else parts(br, True)
+                return any(meta_ok(g, depth + 1) for g in [*parts(f.left.test, pol), *own])
+            return branch(True, f.left.body) and branch(False, f.left.orelse)
+        return False
     ga = repo.method("IdentityDatabase", "get_authority", ID)
     ga_ret = norm(ga.node.returns) if ga.node.returns is not None else ""
     single_key = ga_ret in ("bytes", "'bytes'")
     over = _c(f"{pseud}.database.get_attestations_over({meta})")
+    for p in approving:
+        site = p.sites[0].ast if p.sites[0].ast is not None else fi.node
+        what = "`return True`" if p.final is None else f"`{head(site)}` (truthy)"
+        reasons = {
+            "token pointer known": lambda f: present(f, _c(f"{pseud}.tree.elements"), _c(f"{meta}.token_pointer")),
+            "hash registered": registered,
+            "subject key == registered key": lambda f: f.op == "eq" and f.pos and {X(f.left), X(f.right)} == {SUBJ, reg("public_key")},
+            "registration younger than 300 s": young,
+            "name == registered name": lambda f: f.op == "eq" and f.pos and {X(f.left), X(f.right)} == {_c(f"{TR}['name']"), reg("name")},
+        }
+        for k in ("name", "date", "schema"):
+            reasons[f"required key {k}"] = lambda f, k=k: has_key(f, k)
+        results = {w: p.holds(pr) for w, pr in reasons.items()}
+        # an absent key also never gets past an (unconditional, completed) `table[key]`: the lookup raises
+        results["token pointer known"] = results["token pointer known"] or p.evaluates(
+            lambda e: isinstance(e, ast.Subscript) and isinstance(e.ctx, ast.Load) and X(e) == _c(f"{pseud}.tree.elements[{meta}.token_pointer]") and _x(fi, e) == X(e))
+        results["hash registered"] = results["hash registered"] or p.evaluates(lambda e: isinstance(e, ast.Subscript) and isinstance(e.ctx, ast.Load) and X(e) == K and _x(fi, e, GS[1:]) == K)
+        results["requested_keys = keys of the transaction"] = local_is("requested_keys", *key_forms)
+        results["registered metadata"] = p.holds(meta_ok)
+        if not all(results.values()):
+            # a verdict taken by a callable that is only known at run time (picked by a computed key, getattr, a parameter) cannot be read
+            opaque = [c for c in calls(fi) if (isinstance(c.func, ast.Name) and (local_defs(fi, c.func.id) or c.func.id in fi.params()))
+                      or isinstance(c.func, ast.Subscript) or (isinstance(c.func, ast.Call) and chain(c.func.func) == "getattr")]
+            if opaque:
+                raise AnalysisError(f"undecided: should_sign decides through `{norm(opaque[0])[:80]}`, a callable chosen at run time; "
+                                    f"`{[w for w, ok in results.items() if not ok][0]}` could not be established without reading it")
+        meta_result = results.pop("registered metadata")
+        shown = None
+        for w, ok in results.items():
+            if not ok and shown is None:
+                shown = [str(f) for f in p.facts()]
+            ctx.check(ok, "should-sign", fi, site, f"{what} dominated by: {w}",
+                      f"should_sign can approve although the condition `{w}` does not hold", shown if not ok else None)
+        # registered metadata present => extra fields equal: every path to the approving exit establishes "no metadata
+        # registered" or "extra fields == registered metadata"
+        ctx.check(meta_result, "should-sign", fi, site, f"{what} unreachable when registered metadata exists and differs from the extra fields",
+                  "should_sign approves metadata that differs from the metadata fixed at registration")
+    # already attested by us
 
-    def authority_eq(e: ast.AST, att: str) -> bool:
-        return isinstance(e, ast.Compare) and len(e.ops) == 1 and isinstance(e.ops[0], ast.Eq) and \
-            {norm(e.left), norm(e.comparators[0])} == {_c(f"{pseud}.database.get_authority({att})"), MYKEY}
-
-    def any_over_bytes(e: ast.AST) -> bool:
-        return isinstance(e, ast.Call) and chain(e.func) == "any" and MYKEY in norm(e) and "get_authority" in norm(e) and \
-            any(isinstance(g, (ast.GeneratorExp, ast.ListComp)) and any("get_authority" in norm(c.iter) for c in g.generators) for g in ast.walk(e))
-    ok = False
-    loops = [l for l in walk_no_nested(fi.node) if isinstance(l, ast.For) and X(l.iter) == over and isinstance(l.target, ast.Name)]
-    for l in loops:
-        att = l.target.id
-        refused = False
-        for r in [r for r in ast.walk(l) if isinstance(r, ast.Return) and const_value(resolve(fi, r.value)) is False]:
-            for f in facts_at(cfg, r):
-                e = _expand(fi, f.atom, GS)
-                if f.op == "eq" and f.pos and {X(f.left), X(f.right)} == {_c(f"{pseud}.database.get_authority({att})"), MYKEY}:
-                    # once the comparison succeeds the approving exit is out of reach
-                    cn = [n for n in cfg.nodes_for(f.atom) if n.kind == "cond"]
-                    lab = fact_of(f.atom, True).pos      # label of the edge on which the two keys are equal
-                    if cn and not _reaches(cfg, [v for n in cn for v, la in n.succ if la is lab], site):
-                        refused = single_key
-                if f.op == "truthy" and f.pos and any_over_bytes(e):
-                    if single_key:
-                        ctx.check(False, "should-sign", fi, f.left, "already-attested test compares whole keys",
-                                  f"the 'already attested' refusal iterates over get_authority(), which returns ONE key as `{ga_ret}`: each element is an int and never equals "
-                                  "our key (bytes), so the refusal is dead code and a replayed disclosure is attested again")
-                    else:
-                        refused = True
-        # the approving exit lies behind the exhausted loop (every attestation over this metadata has been looked at)
-        after = any(a is l and pol is False for a, pol in loop_facts(cfg, site))
-        ok = ok or (refused and after)
-    if not loops:
-        # comprehension spelling: `if any(get_authority(a) == our key for a in get_attestations_over(metadata)): return False`
-        for f in fs:
-            e = _expand(fi, f.left, GS)
-            if f.op == "truthy" and not f.pos and isinstance(e, ast.Call) and chain(e.func) == "any" and len(e.args) == 1 \
-                    and isinstance(e.args[0], (ast.GeneratorExp, ast.ListComp)) and len(e.args[0].generators) == 1:
-                g = e.args[0].generators[0]
-                if norm(g.iter) == over and isinstance(g.target, ast.Name) and not g.ifs and authority_eq(e.args[0].elt, g.target.id):
-                    ok = single_key
+    def report(f2, node, reason) -> None:
+        ctx.check(False, "should-sign", f2, node, "already-attested test compares whole keys", reason)
+    ok = _attested_refusal(ctx, fi, approving, X, lambda n: n, over, lambda n: _c(f"{pseud}.database.get_authority({n})"), MYKEY, single_key, ga_ret, report)
+    site = approving[0].sites[0].ast if approving and approving[0].sites[0].ast is not None else fi.node
     ctx.check(ok, "should-sign", fi, site, "refuses when one of the attestations over this metadata is already by us", "should_sign attests the same metadata twice")
     # registrations are written only by add_known_hash
     for m, f2, a in repo.attribute_uses("known_attestation_hashes"):
         p = parent(a)
         w = isinstance(a.ctx, ast.Store) or (isinstance(p, ast.Subscript) and isinstance(p.ctx, (ast.Store, ast.Del))) or \
-            (isinstance(p, ast.Attribute) and p.attr in ("update", "setdefault", "pop", "clear", "popitem", "__setitem__", "__delitem__") and isinstance(parent(p), ast.Call))
+            (isinstance(p, ast.Attribute) and p.attr in _MUTATORS and isinstance(parent(p), ast.Call))
         if w:
-            ctx.check(f2 is not None and f2.qualname in ("IdentityCommunity.add_known_hash", "IdentityCommunity.__init__"), "should-sign", f2 or m.relpath, enclosing_stmt(a),
+            allowed = f2 is not None and (f2.qualname in ("IdentityCommunity.add_known_hash", "IdentityCommunity.__init__")
+                                          or _only_reached_from(ctx, f2, ("IdentityCommunity.add_known_hash", "IdentityCommunity.__init__")))
+            ctx.check(allowed, "should-sign", f2 or m.relpath, enclosing_stmt(a),
                       "registrations written only by add_known_hash", "the consent table is written outside add_known_hash")
+
+
+_MUTATORS = ("update", "setdefault", "pop", "clear", "popitem", "__setitem__", "__delitem__", "__ior__")
+
+
+def _only_reached_from(ctx: Ctx, f2: FuncInfo, allowed: tuple[str, ...], depth: int = 0) -> bool:
+    """f2 is a private method that is only ever called (as self.f2(...)) by the allowed members or by such private methods."""
+    if f2.cls is None or not f2.name.startswith("_") or f2.name.startswith("__") or depth > 3:
+        return False
+    n = 0
+    for m, g, c in ctx.repo.callers_of_name(f2.name):
+        if g is None:
+            return False
+        try:
+            tg = ctx.repo.resolve_call(g, c)
+        except Exception:  # noqa: BLE001
+            return False
+        if f2 not in tg:
+            if isinstance(c.func, ast.Attribute) and not tg and m is f2.module:
+                return False                      # unresolved receiver with this method name in the class's own module: cannot exclude it
+            continue
+        n += 1
+        if g.cls is not f2.cls or not (isinstance(c.func, ast.Attribute) and isinstance(c.func.value, ast.Name) and c.func.value.id == "self"):
+            return False
+        if g.qualname not in allowed and not _only_reached_from(ctx, g, allowed, depth + 1):
+            return False
+    # the method object must not escape (passed as a callback)
+    for m, g, a in ctx.repo.attribute_uses(f2.name):
+        if not (isinstance(parent(a), ast.Call) and parent(a).func is a):
+            return False
+    return n > 0
 
 
 def _extra_fields_of(fi: FuncInfo, dc: ast.AST | None, tr: str) -> bool:
@@ -406,6 +1251,131 @@ def _extra_fields_of(fi: FuncInfo, dc: ast.AST | None, tr: str) -> bool:
     return excluded and _const_set(t.comparators[0]) == {"name", "date", "schema"}
 
 
+_UNK = "\x00"          # an unknown piece of text inside a partially known string
+
+
+def _str_patterns(ctx: Ctx, fi: FuncInfo, e: ast.AST | None, consts: dict, depth: int = 0) -> list[str] | None:  # noqa: C901, PLR0911, PLR0912
+    """
+    The texts a string expression of fi can evaluate to, unknown pieces replaced by _UNK; None when e is not (known to
+    be) a string.  consts: parameter name -> texts fixed by the caller.  A subscript of a class-level dict literal
+    denotes the entry of a fully known key, else every entry (dispatch table).
+    """
+    if e is None or depth > 8:
+        return None
+    e = strip_cast(e)
+
+    def product(parts: list) -> list[str]:
+        out = [""]
+        for ps in parts:
+            out = [a + b for a in out for b in ps][:32]
+        return out
+    if isinstance(e, ast.Constant):
+        return [e.value] if isinstance(e.value, str) else None
+    if isinstance(e, ast.JoinedStr):
+        parts = []
+        for v in e.values:
+            if isinstance(v, ast.Constant):
+                parts.append([str(v.value)])
+            else:
+                inner = _str_patterns(ctx, fi, v.value, consts, depth + 1) if isinstance(v, ast.FormattedValue) and v.format_spec is None and v.conversion == -1 else None
+                parts.append(inner or [_UNK])
+        return product(parts)
+    if isinstance(e, ast.BinOp) and isinstance(e.op, ast.Add):
+        l, r = _str_patterns(ctx, fi, e.left, consts, depth + 1), _str_patterns(ctx, fi, e.right, consts, depth + 1)
+        if l is None and r is None:
+            return None
+        return product([l or [_UNK], r or [_UNK]])
+    if isinstance(e, ast.BinOp) and isinstance(e.op, ast.Mod):
+        l = _str_patterns(ctx, fi, e.left, consts, depth + 1)
+        if l is None:
+            return None
+        import re
+        return [re.sub(r"%(\([^)]*\))?[-#0 +]*\d*(\.\d+)?[sdrif]", _UNK, t) for t in l]
+    if isinstance(e, ast.Call) and isinstance(e.func, ast.Attribute) and e.func.attr == "format":
+        l = _str_patterns(ctx, fi, e.func.value, consts, depth + 1)
+        if l is None:
+            return None
+        import re
+        return [re.sub(r"\{[^{}]*\}", _UNK, t) for t in l]
+    if isinstance(e, ast.Call) and isinstance(e.func, ast.Attribute) and e.func.attr == "join" and isinstance(const_value(e.func.value), str):
+        return [_UNK]
+    if isinstance(e, ast.IfExp):
+        a, b = _str_patterns(ctx, fi, e.body, consts, depth + 1), _str_patterns(ctx, fi, e.orelse, consts, depth + 1)
+        return None if a is None and b is None else [*(a or [_UNK]), *(b or [_UNK])]
+    if isinstance(e, ast.Name):
+        if e.id in consts and not local_defs(fi, e.id):
+            return consts[e.id]
+        ds = local_defs(fi, e.id)
+        if ds:
+            out: list[str] = []
+            for st, v, idx in ds:
+                ps = _str_patterns(ctx, fi, v, consts, depth + 1) if v is not None and idx is None and not isinstance(st, ast.AugAssign) else None
+                if ps is None:
+                    return None if not out else [*out, _UNK]
+                out.extend(ps)
+            return out
+    if isinstance(e, ast.Subscript) and not isinstance(e.slice, ast.Slice):
+        table = None
+        if isinstance(e.value, ast.Attribute) and isinstance(e.value.value, ast.Name) and e.value.value.id in ("self", "cls") and fi.cls is not None:
+            table = fi.cls.lookup_attr(e.value.attr)
+        elif isinstance(e.value, ast.Attribute):
+            c = ctx.repo.resolve_class_expr(fi.module, e.value.value)
+            table = c.lookup_attr(e.value.attr) if c is not None else None
+        elif isinstance(e.value, ast.Name):
+            r = ctx.repo.resolve_name(fi.module, e.value.id) if not local_defs(fi, e.value.id) else None
+            table = r[2] if isinstance(r, tuple) and r[0] == "const" else resolve(fi, e.value)
+        if isinstance(table, ast.Dict) and all(k is not None for k in table.keys):
+            keys = _str_patterns(ctx, fi, e.slice, consts, depth + 1)
+            out = []
+            for k, v in zip(table.keys, table.values):
+                kv = const_value(k)
+                if keys is not None and all(_UNK not in t for t in keys) and kv not in keys:
+                    continue
+                ps = _str_patterns(ctx, fi, v, consts, depth + 1)
+                if ps is None:
+                    return None
+                out.extend(ps)
+            return out or None
+        return None
+    if isinstance(e, (ast.Name, ast.Attribute)):
+        try:
+            v = ctx.repo.resolve_const(fi.module, e, fi.cls)
+        except Exception:  # noqa: BLE001
+            v = NOCONST
+        return [v] if isinstance(v, str) else None
+    return None
+
+
+def _sql_writes(ctx: Ctx, fi: FuncInfo, table: str, consts: dict | None = None, depth: int = 0, seen=()) -> list:
+    """(function, node, SQL text in upper case with single blanks) of every statement text in fi, or in a helper fi calls, that writes `table`."""
+    consts = consts or {}
+    out = []
+    doc = fi.node.body[0].value if fi.node.body and isinstance(fi.node.body[0], ast.Expr) and isinstance(fi.node.body[0].value, ast.Constant) else None
+    cands = [n for n in ast.walk(fi.node) if isinstance(n, ast.Constant) and isinstance(n.value, str) and n is not doc
+             and not isinstance(parent(n), (ast.JoinedStr, ast.FormattedValue, ast.BinOp))]
+    cands += [a for c in calls(fi, nested=True) for a in [*c.args, *[k.value for k in c.keywords]] if not isinstance(a, (ast.Constant, ast.Starred))]
+    cands += [n.value for n in ast.walk(fi.node) if isinstance(n, (ast.Assign, ast.AnnAssign)) and n.value is not None and not isinstance(n.value, ast.Constant)]
+    texts = set()
+    for n in cands:
+        for v in _str_patterns(ctx, fi, n, consts) or []:
+            sql = " ".join(v.upper().split())
+            if (f"INTO {table.upper()}" in sql or f"INTO {_UNK}" in sql) and sql not in texts:
+                texts.add(sql)
+                out.append((fi, n, sql))
+    if depth < 3:
+        for c in calls(fi):
+            fr = _follow(ctx, fi, c, "q_")
+            if fr is None or fr.hf.cls is None or fr.hf.node in seen or fr.hf.node is fi.node or fr.hf.module is not fi.module:
+                continue                          # only helpers of the database module itself (not the generic execute())
+            sub = {}
+            for name, a in fr.bind.items():
+                ps = _str_patterns(ctx, fi, a, consts)
+                if ps is not None:
+                    sub[name] = ps
+            out.extend(_sql_writes(ctx, fr.hf, table, sub, depth + 1, (*seen, fi.node)))
+    return out
+
+
 def rule_attested_memory(ctx: Ctx) -> None:
     """
     The 'already attested' refusal of should_sign asks the database for attestations over the STORED metadata of the
@@ -417,56 +1387,156 @@ def rule_attested_memory(ctx: Ctx) -> None:
     repo = ctx.repo
     for meth, table in (("insert_metadata", "Metadata"), ("insert_attestation", "Attestations")):
         fi = repo.method("IdentityDatabase", meth, ID)
-        texts = []
-        doc = fi.node.body[0].value if isinstance(fi.node.body[0], ast.Expr) and isinstance(fi.node.body[0].value, ast.Constant) else None
-        cands = [n for n in ast.walk(fi.node) if isinstance(n, ast.Constant) and isinstance(n.value, str) and n is not doc]
-        cands += [a for c in calls(fi, nested=True) for a in [*c.args, *[k.value for k in c.keywords]] if isinstance(a, (ast.Name, ast.Attribute, ast.BinOp))]
-        for n in cands:
-            if isinstance(n, ast.Constant):
-                v = n.value
-            else:
-                try:
-                    v = repo.resolve_const(fi.module, resolve(fi, n), fi.cls)
-                except Exception:  # noqa: BLE001
-                    v = None
-            if isinstance(v, str) and f"INTO {table.upper()}" in " ".join(v.upper().split()):
-                texts.append((n, " ".join(v.upper().split())))
+        texts = _sql_writes(ctx, fi, table)
         if not texts:
             raise AnalysisError(f"anchor-lost: no SQL statement writing table {table} found in IdentityDatabase.{meth}")
-        for n, sql in texts:
+        for owner, n, sql in texts:
+            sql = sql.replace(_UNK, "?")
             keeps = sql.startswith("INSERT OR IGNORE INTO") or ("ON CONFLICT" in sql and "DO NOTHING" in sql and "DO UPDATE" not in sql)
             replaces = sql.startswith(("REPLACE", "INSERT OR REPLACE")) or "DO UPDATE" in sql
             if not keeps and not replaces:
                 raise AnalysisError(f"undecided: conflict behaviour of `{sql[:60]}` in IdentityDatabase.{meth}")
-            ctx.check(keeps, "should-sign", fi, enclosing_stmt(n) if not isinstance(n, ast.stmt) else n,
+            ctx.check(keeps, "should-sign", owner, enclosing_stmt(n) if not isinstance(n, ast.stmt) else n,
                       f"{meth}: a stored {table} row is never replaced (first write wins), so the 'already attested' memory stays attached to the attested metadata",
                       f"IdentityDatabase.{meth} replaces an existing {table} row: re-issued metadata for an already attested token displaces the attested one, "
                       "should_sign's 'already attested' lookup finds nothing for it and the same registered attribute is attested again")
 
 
 # ------------------------------------------------------------------------------------ attesting
-def _solicited_expr(e: ast.AST | None, lay: dict[str, int], peerkey: str) -> bool:
-    """e says: some registration's subject key equals the sender's key."""
-    def reg_key(x: ast.AST, var: str) -> bool:
-        return isinstance(x, ast.Subscript) and isinstance(x.value, ast.Name) and x.value.id == var and const_value(x.slice) == lay["public_key"]
+def _selection(e: ast.AST | None, lay: dict[str, int], peerkey: str):
+    """
+    e is a comprehension over the registration table.  Returns (where, elt) with where = "elt" when the element itself is
+    the test `registered subject key == sender's key`, "if" when one of the filters is that test, "key" when the element
+    is the registered subject key (unfiltered); None when e is not such a comprehension.
+    """
+    if not isinstance(e, (ast.GeneratorExp, ast.ListComp, ast.SetComp, ast.DictComp)) or len(e.generators) != 1:
+        return None
+    g = e.generators[0]
+    if g.is_async:
+        return None
+    table = "self.known_attestation_hashes"
+    it = norm(g.iter)
+    entry: list[str] = []                       # spellings of "the registration this iteration looks at"
+    if it == f"{table}.values()" and isinstance(g.target, ast.Name):
+        entry = [g.target.id]
+    elif it == f"{table}.items()" and isinstance(g.target, ast.Tuple) and len(g.target.elts) == 2 and all(isinstance(t, ast.Name) for t in g.target.elts):
+        entry = [g.target.elts[1].id, f"{table}[{g.target.elts[0].id}]"]
+    elif it in (table, f"{table}.keys()", f"list({table})", f"list({table}.keys())") and isinstance(g.target, ast.Name):
+        entry = [f"{table}[{g.target.id}]", f"{table}.get({g.target.id})"]
+    else:
+        return None
 
-    def over_table(g: ast.comprehension) -> str | None:
-        if g.is_async or g.ifs or not isinstance(g.target, ast.Name) or norm(g.iter) != "self.known_attestation_hashes.values()":
-            return None
-        return g.target.id
-    if isinstance(e, ast.Call) and chain(e.func) == "any" and len(e.args) == 1 and not e.keywords \
-            and isinstance(e.args[0], (ast.GeneratorExp, ast.ListComp, ast.SetComp)) and len(e.args[0].generators) == 1:
-        var = over_table(e.args[0].generators[0])
-        c = e.args[0].elt
-        if var and isinstance(c, ast.Compare) and len(c.ops) == 1 and isinstance(c.ops[0], ast.Eq):
+    def reg_key(x: ast.AST) -> bool:
+        return isinstance(x, ast.Subscript) and norm(x.value) in entry and const_value(x.slice) == lay["public_key"] and not isinstance(const_value(x.slice), bool)
+
+    def test(c: ast.AST) -> bool:
+        if isinstance(c, ast.Compare) and len(c.ops) == 1 and isinstance(c.ops[0], ast.Eq):
             a, b = c.left, c.comparators[0]
-            return (reg_key(a, var) and norm(b) == peerkey) or (reg_key(b, var) and norm(a) == peerkey)
-    if isinstance(e, ast.Compare) and len(e.ops) == 1 and isinstance(e.ops[0], ast.In) and norm(e.left) == peerkey:
-        s = e.comparators[0]
-        if isinstance(s, (ast.GeneratorExp, ast.ListComp, ast.SetComp)) and len(s.generators) == 1:
-            var = over_table(s.generators[0])
-            return bool(var) and reg_key(s.elt, var)
+            return (reg_key(a) and norm(b) == peerkey) or (reg_key(b) and norm(a) == peerkey)
+        return False
+    if any(test(c) for c in g.ifs):
+        return "if"
+    if isinstance(e, ast.DictComp):
+        return None
+    if test(e.elt):
+        return "elt"
+    if reg_key(e.elt) and not g.ifs:
+        return "key"
+    return None
+
+
+def _solicited_fact(f: Fact, lay: dict[str, int], peerkey: str) -> bool:  # noqa: C901, PLR0911
+    """The (fully expanded) fact says: some registration's subject key equals the sender's key."""
+    def unwrap(e: ast.AST) -> ast.AST:
+        while isinstance(e, ast.Call) and chain(e.func) in ("list", "tuple", "set", "frozenset", "sorted") and len(e.args) == 1 and not e.keywords:
+            e = e.args[0]
+        return e
+
+    def selected(e: ast.AST, *, sized: bool) -> bool:
+        """e holds exactly the registrations (or things made one per registration) of the sender; sized: e is a container, not a lazy generator"""
+        inner = unwrap(e)
+        if sized and inner is e and isinstance(e, ast.GeneratorExp):
+            return False
+        return _selection(inner, lay, peerkey) == "if"
+    e = f.left
+    if f.op == "truthy" and f.pos:
+        if isinstance(e, ast.Call) and chain(e.func) == "any" and len(e.args) == 1 and not e.keywords:
+            kind = _selection(unwrap(e.args[0]), lay, peerkey)
+            if kind == "elt":
+                return True
+            return kind == "if" and const_value(getattr(unwrap(e.args[0]), "elt", None)) is True
+        return selected(e, sized=True)
+    # len(selection) > 0, != 0, >= 1
+    def len_sel(x: ast.AST | None) -> bool:
+        return isinstance(x, ast.Call) and chain(x.func) == "len" and len(x.args) == 1 and not x.keywords and selected(x.args[0], sized=True)
+
+    def num(x: ast.AST | None, v: int) -> bool:
+        return x is not None and const_value(x) == v and not isinstance(const_value(x), bool)
+    if f.op == "eq" and not f.pos and ((len_sel(f.left) and num(f.right, 0)) or (len_sel(f.right) and num(f.left, 0))):
+        return True
+    if f.op == "lt" and f.pos and num(f.left, 0) and len_sel(f.right):            # 0 < len
+        return True
+    if f.op == "lt" and not f.pos and len_sel(f.left) and num(f.right, 1):        # not (len < 1)
+        return True
+    if f.op == "in" and f.pos and norm(f.left) == peerkey:
+        return _selection(unwrap(f.right), lay, peerkey) == "key"
+    if f.op == "is" and not f.pos and const_value(f.right) is None and isinstance(e, ast.Call) and chain(e.func) == "next" and len(e.args) == 2 \
+            and const_value(e.args[1]) is None and not e.keywords:
+        return _selection(e.args[0], lay, peerkey) == "if"
     return False
+
+
+def _solicited_call(ctx: Ctx, fi: FuncInfo, call: ast.AST, lay: dict[str, int], peerkey: str, depth: int = 0) -> bool:  # noqa: C901
+    """
+    `call` is a helper of the own class that hands back something truthy only if some registration's subject key equals
+    the sender's key: every truthy return is either such an expression itself or is reached only after the comparison
+    `entry[<key position>] == <sender's key>` succeeded for an entry the helper took from the registration table in a loop.
+    """
+    fr = _follow(ctx, fi, call, f"o{depth + 1}_")
+    if fr is None or depth > 2:
+        return False
+    hf = fr.hf
+    table = "self.known_attestation_hashes"
+    entries: set[str] = set()                    # spellings of "a registration taken from the table" inside the helper
+    for l in walk_no_nested(hf.node):
+        if not isinstance(l, ast.For):
+            continue
+        it = _x(hf, l.iter)
+        names = [n.id for n in ast.walk(l.target) if isinstance(n, ast.Name)]
+        if any(len(local_defs(hf, n)) != 1 or n in hf.params() for n in names):
+            continue
+        if it == f"{table}.values()" and isinstance(l.target, ast.Name):
+            entries.add(l.target.id)
+        elif it == f"{table}.items()" and isinstance(l.target, ast.Tuple) and len(l.target.elts) == 2 and all(isinstance(t, ast.Name) for t in l.target.elts):
+            entries |= {l.target.elts[1].id, f"{table}[{l.target.elts[0].id}]"}
+        elif it in (table, f"{table}.keys()", f"list({table})", f"list({table}.keys())") and isinstance(l.target, ast.Name):
+            entries.add(f"{table}[{l.target.id}]")
+
+    def loop_eq(f: Fact) -> bool:
+        if f.op != "eq" or not f.pos:
+            return False
+        for a, b in ((f.left, f.right), (f.right, f.left)):
+            a2 = _expand(hf, a, (table,))
+            if isinstance(a2, ast.Subscript) and norm(a2.value) in entries and const_value(a2.slice) == lay["public_key"] and not isinstance(const_value(a2.slice), bool) \
+                    and _x(fi, fr.lift(b)) == peerkey:
+                return True
+        return False
+
+    def says(f: Fact) -> bool:
+        if loop_eq(f):
+            return True
+        a, q = _pair_of(f)
+        la = _expand(fi, fr.lift(a))
+        if _solicited_fact(fact_of(la, q), lay, peerkey):
+            return True
+        return False
+    exits = _approving_exits(ctx, hf)
+    return bool(exits) and all(p.holds(says) for p in exits)
+
+
+def _solicited_expr(e: ast.AST | None, lay: dict[str, int], peerkey: str) -> bool:
+    """e (truthy) says: some registration's subject key equals the sender's key."""
+    return e is not None and any(_solicited_fact(f, lay, peerkey) for f in (_atoms_with_polarity(e, True) or [fact_of(e, True)]))
 
 
 def _tuple_elem(fi: FuncInfo, e: ast.AST | None):
@@ -483,29 +1553,71 @@ def _tuple_elem(fi: FuncInfo, e: ast.AST | None):
     return None, None
 
 
+def _sites_below(ctx: Ctx, fi: FuncInfo, want, *, lift=None, outer=(), depth: int = 0, seen=()) -> list:
+    """
+    The calls accepted by want(call) in fi and in the own-class private helpers fi calls (transitively), each with what
+    is known when it is reached, told in fi's name space: (owner function, call, [Fact], lift) where lift rewrites an
+    expression of the owner into fi's terms.
+    """
+    lift = lift or (lambda e: e)
+    out = []
+    for c in calls(fi):
+        if want(c):
+            p = _Paths(ctx, fi, c)
+            out.append((fi, c, [*outer, *[fact_of(lift(a), q) for a, q in p.all_pairs()]], lift))
+            continue
+        if depth >= 3:
+            continue
+        fr = _follow(ctx, fi, c, f"s{depth + 1}_", generators=True)
+        if fr is None or fr.hf.cls is None or fr.hf.cls is not fi.cls or fr.hf.node in seen or not fr.hf.name.startswith("_") or fr.hf.name.startswith("__"):
+            continue
+        if not any(want(x) for x in _calls_deep(ctx, fr.hf, 3 - depth)):
+            continue
+        p = _Paths(ctx, fi, c)
+        here = [*outer, *[fact_of(lift(a), q) for a, q in p.all_pairs()]]
+        out.extend(_sites_below(ctx, fr.hf, want, lift=lambda e, fr=fr, lift=lift: lift(fr.lift(e)), outer=here, depth=depth + 1, seen=(*seen, fi.node)))
+    return out
+
+
+def _calls_deep(ctx: Ctx, fi: FuncInfo, depth: int) -> list:
+    out = list(calls(fi))
+    if depth > 0:
+        for c in list(out):
+            fr = _follow(ctx, fi, c, "x_", generators=True)
+            if fr is not None and fr.hf.cls is fi.cls and fi.cls is not None and fr.hf.name.startswith("_") and not fr.hf.name.startswith("__"):
+                out.extend(_calls_deep(ctx, fr.hf, depth - 1))
+    return out
+
+
 def rule_attest(ctx: Ctx) -> None:  # noqa: C901, PLR0912
     repo = ctx.repo
     lay = known_hash_layout(ctx)
     fi = repo.method("IdentityCommunity", "_received_disclosure_for_attest", IC)
-    cfg = ctx.cfg(fi)
     peer, disc = fi.params()[1], fi.params()[2]
     peerkey = _c(f"{peer}.public_key.key_to_bin()")
     stable = not local_defs(fi, peer) and not local_defs(fi, disc)
-    creates = [c for c in calls(fi) if call_name(c) == "create_attestation"]
-    sites = creates + [c for c in calls(fi, "self.ez_send") if mentions(c, "AttestPayload")]
-    ctx.floor("attest-only-if-consented", len(sites), 2)
+
+    def is_create(c: ast.Call) -> bool:
+        return call_name(c) == "create_attestation"
+
+    def is_send(c: ast.Call) -> bool:
+        return chain(c.func) == "self.ez_send" and mentions(c, "AttestPayload")
+    found = _sites_below(ctx, fi, lambda c: is_create(c) or is_send(c))
+    ctx.floor("attest-only-if-consented", len(found), 2)
     sub = [c for c in calls(fi, "self.identity_manager.substantiate")]
     ok_sub = stable and len(sub) == 1 and _x(fi, arg(sub[0], 0)) == f"{peer}.public_key" and len(sub[0].args) == 2 \
         and isinstance(sub[0].args[1], ast.Starred) and _x(fi, sub[0].args[1].value) == disc and not sub[0].keywords
     ctx.check(ok_sub, "attest-only-if-consented", fi, fi.node, "disclosure substantiated under the authenticated sender's key", "the disclosure is validated under a key other than the sender's")
-    for s in sites:
-        fs = facts_at(cfg, s)
+    approved: dict = {}
+    for owner, s, fs, lift in found:
         sol = cor = False
         ss = None
         for f in fs:
             e = _expand(fi, f.atom)
+            fe = fact_of(e, _pair_of(f)[1])
             via = _simple_callee_value(ctx, fi, e)
-            if f.pos and (_solicited_expr(e, lay, peerkey) or (via is not None and _solicited_expr(via, lay, peerkey))):
+            if _solicited_fact(fe, lay, peerkey) or (f.pos and via is not None and _solicited_expr(via, lay, peerkey)) \
+                    or (f.op == "truthy" and f.pos and _solicited_call(ctx, fi, resolve(fi, f.left), lay, peerkey)):
                 sol = True
             if f.op == "truthy" and f.pos:
                 prod, idx = _tuple_elem(fi, f.left)
@@ -515,15 +1627,22 @@ def rule_attest(ctx: Ctx) -> None:  # noqa: C901, PLR0912
                 if isinstance(r, ast.Call) and chain(r.func) == "self.should_sign":
                     ss = r
         ss_ok = False
-        if ss is not None and len(ss.args) == 2 and not ss.keywords:
+        if ss is not None and len(ss.args) == 2 and not ss.keywords and not any(isinstance(a, ast.Starred) for a in ss.args):
             prod, idx = _tuple_elem(fi, ss.args[0])
-            ss_ok = bool(sub) and prod is sub[0] and idx == 1 and _x(fi, ss.args[1]) == "credential.metadata"
-        ctx.check(sol and cor and ss_ok, "attest-only-if-consented", fi, s,
+            md = _x(fi, ss.args[1])
+            steady = all(len(local_defs(fi, n.id)) <= 1 for n in ast.walk(ss.args[1]) if isinstance(n, ast.Name))
+            ss_ok = bool(sub) and prod is sub[0] and idx == 1 and steady and isinstance(strip_cast(ss.args[1]), ast.Attribute) and strip_cast(ss.args[1]).attr == "metadata"
+            if ss_ok:
+                approved[id(s)] = md
+        ctx.check(sol and cor and ss_ok, "attest-only-if-consented", owner, s,
                   "attesting dominated by: solicited sender, correct substantiation, should_sign(pseudonym, credential.metadata)",
                   f"an attestation can be created/sent without the owner's consent checks (solicited={sol} correct={cor} should_sign={ss_ok})", [str(f) for f in fs])
-    for c in creates:
-        ok = _x(fi, arg(c, 0)) == "credential.metadata" and _x(fi, arg(c, 1)) == "self.my_peer.key"
-        ctx.check(ok, "attest-only-if-consented", fi, c, "attestation is over the approved metadata, signed with our key", "the attestation is over other metadata than the approved one")
+    for owner, c, _fs, lift in found:
+        if not is_create(c):
+            continue
+        a0, a1 = arg(c, 0, "metadata"), arg(c, 1, "private_key")
+        ok = a0 is not None and a1 is not None and _x(fi, lift(a0)) == approved.get(id(c), "credential.metadata") and _x(fi, lift(a1)) == "self.my_peer.key"
+        ctx.check(ok, "attest-only-if-consented", owner, c, "attestation is over the approved metadata, signed with our key", "the attestation is over other metadata than the approved one")
     _substantiate(ctx)
 
 
@@ -540,28 +1659,61 @@ def _substantiate(ctx: Ctx) -> None:  # noqa: C901
     pseudo = _c(f"self.get_pseudonym({p[1]})")
     rets = [r for r in walk_no_nested(sb.node) if isinstance(r, ast.Return)]
     rv = resolve(sb, rets[0].value) if len(rets) == 1 else None
-    ok = isinstance(rv, ast.Tuple) and len(rv.elts) == 2 and isinstance(rv.elts[0], ast.Name) and not local_defs(sb, p[1]) and not local_defs(sb, p[3])
+    ok = isinstance(rv, ast.Tuple) and len(rv.elts) == 2 and not local_defs(sb, p[1]) and not local_defs(sb, p[3])
     why = "substantiate no longer returns (flag, pseudonym) from a single exit"
-    flag = rv.elts[0].id if ok else None
+
+    def conjuncts(e: ast.AST) -> list:
+        e = strip_cast(e)
+        if isinstance(e, ast.BoolOp) and isinstance(e.op, ast.And):
+            return [x for v in e.values for x in conjuncts(v)]
+        if isinstance(e, ast.BinOp) and isinstance(e.op, ast.BitAnd):
+            return [*conjuncts(e.left), *conjuncts(e.right)]
+        if isinstance(e, ast.Call) and chain(e.func) == "bool" and len(e.args) == 1 and not e.keywords:
+            return conjuncts(e.args[0])
+        return [e]
+    # the verdict is a conjunction of flags (locals); a multiply assigned local is a flag, a single-assignment one its definition
+    flags: list[str] = []
+    direct: list[ast.AST] = []
     if ok:
-        def and_update(s, v) -> ast.AST | None:
-            """the operand and-ed into the flag by this definition, or None"""
-            if isinstance(s, ast.AugAssign) and isinstance(s.op, ast.BitAnd):
-                return s.value
+        todo = conjuncts(rv.elts[0])
+        while todo:
+            e = todo.pop()
+            if isinstance(e, ast.Name) and e.id not in sb.params() and len(local_defs(sb, e.id)) == 1 and single_def(sb, e.id) is not None and single_def(sb, e.id)[1] is None:
+                todo.extend(conjuncts(single_def(sb, e.id)[0]))
+            elif isinstance(e, ast.Name) and local_defs(sb, e.id):
+                if e.id not in flags:
+                    flags.append(e.id)
+            else:
+                direct.append(e)
+    if ok:
+        def lowering(name: str, s, v):  # noqa: C901, PLR0911
+            """("and", operand) when this definition and-s an operand into the flag, ("false", None) when it sets it to False, else None"""
+            def is_flag(x) -> bool:
+                return isinstance(x, ast.Name) and x.id == name
+            if isinstance(s, ast.AugAssign):
+                return ("and", s.value) if isinstance(s.op, ast.BitAnd) else None
+            if v is None:
+                return None
+            v = strip_cast(v)
+            if const_value(v) is False:
+                return ("false", None)
             if isinstance(v, ast.BinOp) and isinstance(v.op, ast.BitAnd):
-                if isinstance(v.left, ast.Name) and v.left.id == flag:
-                    return v.right
-                if isinstance(v.right, ast.Name) and v.right.id == flag:
-                    return v.left
-            if isinstance(v, ast.BoolOp) and isinstance(v.op, ast.And) and len(v.values) == 2:
-                if isinstance(v.values[0], ast.Name) and v.values[0].id == flag:
-                    return v.values[1]
-                if isinstance(v.values[1], ast.Name) and v.values[1].id == flag:
-                    return v.values[0]
+                if is_flag(v.left):
+                    return ("and", v.right)
+                if is_flag(v.right):
+                    return ("and", v.left)
+            if isinstance(v, ast.BoolOp) and isinstance(v.op, ast.And) and any(is_flag(x) for x in v.values):
+                rest = [x for x in v.values if not is_flag(x)]
+                return ("and", rest[0] if len(rest) == 1 else ast.BoolOp(op=ast.And(), values=rest)) if rest else None
+            if isinstance(v, ast.IfExp):
+                t, a, b = v.test, v.body, v.orelse
+                while isinstance(t, ast.UnaryOp) and isinstance(t.op, ast.Not):
+                    t, a, b = t.operand, b, a
+                if is_flag(a) and const_value(b) is False:
+                    return ("and", t)                 # flag if verdict else False
+                if is_flag(t) and const_value(b) is False:
+                    return ("and", a)                 # verdict if flag else False
             return None
-        defs = local_defs(sb, flag)
-        inits = [(s, v) for s, v, i in defs if and_update(s, v) is None]
-        anded = [and_update(s, v) for s, v, i in defs if and_update(s, v) is not None]
 
         def is_chain_verdict(e: ast.AST | None) -> bool:
             e = _expand(sb, e)
@@ -569,21 +1721,58 @@ def _substantiate(ctx: Ctx) -> None:  # noqa: C901
                 return any(is_chain_verdict(v) for v in e.values)
             return isinstance(e, ast.Call) and norm(e.func) == _c(f"{pseudo}.tree.unserialize_public") and len(e.args) == 1 \
                 and not e.keywords and norm(e.args[0]) == p[3]
-        ok = len(inits) == 1 and inits[0][1] is not None and is_chain_verdict(inits[0][1]) and not isinstance(inits[0][0], (ast.For, ast.With))
+        inits, anded, false_nodes, lower_nodes = [], [], [], []
+        for name in flags:
+            for s, v, i in local_defs(sb, name):
+                low = lowering(name, s, v) if i is None else None
+                if low is None:
+                    inits.append((name, s, v))
+                else:
+                    lower_nodes.extend(cfg.nodes_for(s))
+                    if low[0] == "and":
+                        anded.extend(conjuncts(low[1]))
+                    else:
+                        false_nodes.extend(cfg.nodes_for(s))
+        chain_inits = [(n, s, v) for n, s, v in inits if v is not None and is_chain_verdict(v)]
+        chain_direct = [e for e in direct if is_chain_verdict(e)]
+        # every flag starts exactly once, as the chain verdict or as True; everything else in the conjunction is the chain verdict itself
+        ok = len(chain_inits) + len(chain_direct) == 1 and len(inits) == len(flags) and len(direct) == len(chain_direct) \
+            and all(v is not None and not isinstance(s, (ast.For, ast.With)) and (is_chain_verdict(v) or const_value(strip_cast(v)) is True) for n, s, v in inits)
         why = "the flag of substantiate is not `tree.unserialize_public(tokens)` lowered only by `&=`"
+        retnodes = [n for r in rets for n in cfg.nodes_for(r)]
         if ok:
-            # the initial verdict is taken on every path to the return
-            init_nodes = cfg.nodes_for(inits[0][0])
-            ok = bool(init_nodes) and all(cfg.must_complete(n, init_nodes) for r in rets for n in cfg.nodes_for(r))
+            # every start is made on every path to the return, and before anything is and-ed in
+            for n, s, v in inits:
+                init_nodes = cfg.nodes_for(s)
+                ok = ok and bool(init_nodes) and all(cfg.must_complete(n2, init_nodes) for n2 in retnodes)
+                ok = ok and not any(i2 in cfg.reach(lower_nodes) for i2 in init_nodes)
         if ok:
             adds = [c for c in calls(sb) if call_name(c) == "add_attestation"]
             folded = [resolve(sb, a) for a in anded]
-            ok = bool(adds) and all(any(c is f for f in folded) for c in adds) and all(_x(sb, c.func.value) == pseudo for c in adds if isinstance(c.func, ast.Attribute))
+
+            def tested_and_lowered(c: ast.Call) -> bool:
+                """the verdict of c is tested and the edge a False verdict takes leads to `flag = False` before the return"""
+                hit = False
+                for n in cfg.nodes:
+                    if n.kind != "cond":
+                        continue
+                    s0 = _subject(n.ast, True)[0]
+                    if resolve(sb, s0) is not c:
+                        continue
+                    for v, lab in n.succ:
+                        if lab in (True, False) and _subject(n.ast, lab)[1](False):
+                            hit = True
+                            r = cfg.reach([v], cut_nodes=false_nodes)
+                            if any(x in r for x in retnodes):
+                                return False
+                return hit
+            ok = bool(adds) and all(any(c is f for f in folded) or tested_and_lowered(c) for c in adds) \
+                and all(_x(sb, c.func.value) == pseudo for c in adds if isinstance(c.func, ast.Attribute))
             why = "an add_attestation verdict is not and-ed into the flag of substantiate"
         ok = ok and _x(sb, rv.elts[1]) == pseudo
     ctx.check(bool(ok), "attest-only-if-consented", sb, sb.node, "substantiate ANDs tree.unserialize_public and every add_attestation result",
               f"substantiate reports a disclosure as correct although a token or attestation failed verification ({why})")
-    ctx.check(flag is not None and _x(sb, rv.elts[1]) == pseudo, "attest-only-if-consented", sb, sb.node,
+    ctx.check(isinstance(rv, ast.Tuple) and len(rv.elts) == 2 and _x(sb, rv.elts[1]) == pseudo, "attest-only-if-consented", sb, sb.node,
               "the pseudonym is the one of the given key", "substantiate loads the disclosure into another key's pseudonym")
 
 
@@ -591,12 +1780,82 @@ def _substantiate(ctx: Ctx) -> None:  # noqa: C901
 def _verify_fact(fi: FuncInfo, fs, obj: str, key: str) -> bool:
     """A dominating fact `obj.verify(key)` is truthy (possibly through a local holding the verdict)."""
     for f in fs:
-        if f.op == "truthy" and f.pos:
-            e = _expand(fi, f.left)
-            if isinstance(e, ast.Call) and isinstance(e.func, ast.Attribute) and e.func.attr == "verify" and norm(e.func.value) == obj \
-                    and len(e.args) == 1 and not e.keywords and norm(e.args[0]) == key:
-                return True
+        e = _expand(fi, f.left)
+        hit = isinstance(e, ast.Call) and isinstance(e.func, ast.Attribute) and e.func.attr == "verify" and norm(e.func.value) == obj \
+            and len(e.args) == 1 and not e.keywords and norm(e.args[0]) == key
+        if hit and ((f.op == "truthy" and f.pos) or (f.op in ("is", "eq") and f.right is not None and const_value(f.right) is True and f.pos)):
+            return True
     return False
+
+
+def _contexts(ctx: Ctx, fi: FuncInfo, site: ast.AST, depth: int = 0) -> list:
+    """
+    The ways a site is reached: [(root function, [Fact] told in root's name space, lift)].  A private method is entered
+    only through its callers, so what they established before the call holds at the site as well; lift rewrites an
+    expression of fi into root's terms.
+    """
+    here = _Paths(ctx, fi, site).facts()
+    alone = [(fi, here, lambda e: e)]
+    if depth >= 3 or fi.cls is None or not fi.name.startswith("_") or fi.name.startswith("__"):
+        return alone
+    sites = []
+    for m, g, c in ctx.repo.callers_of_name(fi.name):
+        try:
+            if g is not None and fi in ctx.repo.resolve_call(g, c):
+                sites.append((g, c))
+        except Exception:  # noqa: BLE001
+            return alone
+    out = []
+    for g, c in sites:
+        fr = _Frame(g, c, fi, f"u{depth + 1}_")
+        if not fr.ok or g.cls is not fi.cls or g.node is fi.node:
+            return alone
+        for root, facts, lift in _contexts(ctx, g, c, depth + 1):
+            def l2(e, fr=fr, lift=lift):
+                return lift(fr.lift(e))
+            out.append((root, [*facts, *[fact_of(l2(a), q) for a, q in map(_pair_of, here)]], l2))
+    return out or alone
+
+
+def _verify_is_for_given_key(ctx: Ctx) -> None:
+    """
+    `x.verify(key)` is what the storing methods rely on for "x is validly signed by key".  That reading holds only if the
+    verify() of attestations and metadata answers True solely on the strength of the signature primitive evaluated for
+    the key it was GIVEN, over the object's own plaintext and signature: every exit that can hand back a truthy value
+    returns, or lies behind a truthy, `self.crypto.is_valid_signature(<key parameter>, self.get_plaintext(),
+    self.signature)`.  A verdict from anywhere else (a remembered earlier verdict, a flag on the object) is not a verdict
+    about this key: an attestation signed by T then also 'verifies' for the sender S and is stored as made by S.
+    """
+    seen = set()
+    for cname, rel in (("Attestation", "ipv8/attestation/identity/attestation.py"), ("Metadata", "ipv8/attestation/identity/metadata.py")):
+        m = ctx.repo.cls(cname, rel).lookup("verify")
+        if m is None:
+            raise AnalysisError(f"anchor-lost: {cname}.verify")
+        if id(m.node) in seen:
+            continue
+        seen.add(id(m.node))
+        m = _unrolled(ctx, m)
+        if len(m.params()) < 2:
+            raise AnalysisError(f"anchor-lost: {m.qualname} takes no key")
+        key = m.params()[1]
+
+        def primitive(f: Fact, m=m, key=key) -> bool:
+            e = _expand(m, f.left)
+            while isinstance(e, ast.Call) and chain(e.func) == "bool" and len(e.args) == 1 and not e.keywords:
+                e = e.args[0]
+            if not (f.op == "truthy" and f.pos and isinstance(e, ast.Call) and chain(e.func) == "self.crypto.is_valid_signature"):
+                return False
+            if any(isinstance(a, ast.Starred) for a in e.args) or any(k.arg is None for k in e.keywords) or len(e.args) + len(e.keywords) != 3:
+                return False
+            got = [arg(e, i, k) for i, k in enumerate(("ec_key", "data", "signature"))]
+            return None not in got and [norm(g) for g in got] == [key, "self.get_plaintext()", "self.signature"]
+        exits = _approving_exits(ctx, m)
+        ok = bool(exits) and not local_defs(m, key) and all(p.holds(primitive) for p in exits)
+        bad = next((p for p in exits if not p.holds(primitive)), None)
+        node = bad.sites[0].ast if bad is not None and bad.sites[0].ast is not None else m.node
+        ctx.check(ok, "store-only-valid", m, node, f"{m.qualname}(key) is truthy only if is_valid_signature(key, own plaintext, own signature) is",
+                  f"{m.qualname} can answer True without the signature having been checked against the key it was given (a remembered or otherwise obtained verdict): "
+                  "an attestation signed by another key then 'verifies' for the sender and on_attest / add_attestation store it as made by the sender")
 
 
 def rule_store(ctx: Ctx) -> None:
@@ -610,26 +1869,34 @@ def rule_store(ctx: Ctx) -> None:
         ctx.check(fi.cls is pm, "store-only-valid", fi, c, f"{call_name(c)} called from PseudonymManager", f"{call_name(c)} is called outside PseudonymManager's verifying methods")
         if fi.cls is not pm:
             continue
-        cfg = ctx.cfg(fi)
-        fs = facts_at(cfg, c)
+        ok, shown = True, []
+        for root, fs, lift in _contexts(ctx, fi, c):
+            shown = [str(f) for f in fs]
+            if call_name(c) == "insert_attestation":
+                a0, a1, a2 = arg(c, 0, "public_key"), arg(c, 1, "authority_key"), arg(c, 2, "attestation")
+                ok = ok and None not in (a0, a1, a2) and _verify_fact(root, fs, _x(root, lift(a2)), _x(root, lift(a1))) and _x(root, lift(a0)) == "self.public_key"
+            else:
+                a0, a1 = arg(c, 0, "public_key"), arg(c, 1, "metadata")
+                ok = ok and None not in (a0, a1) and _verify_fact(root, fs, _x(root, lift(a1)), "self.public_key") and _x(root, lift(a0)) == "self.public_key"
         if call_name(c) == "insert_attestation":
-            att, auth = _x(fi, arg(c, 2)), _x(fi, arg(c, 1))
-            ok = _verify_fact(fi, fs, att, auth) and _x(fi, arg(c, 0)) == "self.public_key"
             ctx.check(ok, "store-only-valid", fi, c, "attestation stored only if it verifies under the key recorded as its authority",
-                      "an attestation is stored without being validly signed by the recorded authority", [str(f) for f in fs])
+                      "an attestation is stored without being validly signed by the recorded authority", shown)
         else:
-            md = _x(fi, arg(c, 1))
-            ok = _verify_fact(fi, fs, md, "self.public_key") and _x(fi, arg(c, 0)) == "self.public_key"
-            ctx.check(ok, "store-only-valid", fi, c, "metadata stored only if signed by the pseudonym's key", "metadata is stored without a valid owner signature", [str(f) for f in fs])
+            ctx.check(ok, "store-only-valid", fi, c, "metadata stored only if signed by the pseudonym's key", "metadata is stored without a valid owner signature", shown)
     ctx.floor("store-only-valid", n, 3)
+    _verify_is_for_given_key(ctx)
     oa = repo.method("IdentityCommunity", "on_attest", IC)
     from .c01 import classify_handler
     ctx.check(classify_handler(ctx, oa) == "authenticated", "store-only-valid", oa, oa.node, "on_attest is authenticated", "on_attest is not authenticated")
     peer = oa.params()[1]
-    aa = [c for c in calls(oa) if call_name(c) == "add_attestation"]
-    un = [c for c in calls(oa, "Attestation.unserialize")]
-    ok = len(aa) == 1 and _x(oa, arg(aa[0], 0)) == f"{peer}.public_key" and len(un) == 1 and _x(oa, arg(un[0], 1)) == f"{peer}.public_key" \
-        and chain(aa[0].func) == "self.pseudonym_manager.add_attestation" and not local_defs(oa, peer)
+    aa = _sites_below(ctx, oa, lambda c: call_name(c) == "add_attestation")
+    un = _sites_below(ctx, oa, lambda c: chain(c.func) == "Attestation.unserialize")
+    ok = len(aa) == 1 and len(un) == 1 and not local_defs(oa, peer)
+    if ok:
+        (_o1, c1, _f1, l1), (_o2, c2, _f2, l2) = aa[0], un[0]
+        k1, k2 = arg(c1, 0, "public_key"), arg(c2, 1, "public_key")
+        ok = k1 is not None and k2 is not None and _x(oa, l1(k1)) == f"{peer}.public_key" and _x(oa, l2(k2)) == f"{peer}.public_key" \
+            and chain(c1.func) == "self.pseudonym_manager.add_attestation"
     ctx.check(ok, "store-only-valid", oa, oa.node, "incoming attestation verified and recorded under the authenticated sender's key",
               "an incoming attestation is attributed to a key other than the authenticated sender's")
 
@@ -665,68 +1932,369 @@ def _permitted_tokens(fi: FuncInfo, e: ast.AST | None, peer: str) -> bool:
     return False
 
 
+class _Prov:
+    """
+    Where a value of fi comes from, as one of a few kinds decided over ALL definitions and in-place updates of the locals
+    involved (never over statement order):
+      BOUND  a position not beyond the one opened to the peer: permissions.get(peer, 0), permissions[peer] (raises when
+             nothing was opened), 0, a choice between such, min(such, len(...))
+      TOKENS tokens of self.token_chain[<any>:BOUND] (any sub-slice / filter / copy of that)   TOKEN  one of those
+      BYTES  b"" / TOKEN.get_plaintext_signed() / concatenations, joins and slices of BYTES     CHUNKS a list of BYTES
+      PAIRS  enumerate(TOKENS)    EMPTY  an empty list literal    None  anything else
+    peers: the names in fi that denote the requesting peer; param_kinds: kinds of fi's parameters fixed by its callers.
+    """
+
+    def __init__(self, ctx: Ctx, fi: FuncInfo, peers: set[str], param_kinds: dict | None = None, depth: int = 0) -> None:
+        self.ctx, self.fi, self.peers, self.param_kinds, self.depth = ctx, fi, {p for p in peers if not local_defs(fi, p)}, param_kinds or {}, depth
+        self.busy: set[str] = set()
+        self.memo: dict = {}
+
+    @staticmethod
+    def unify(kinds) -> str | None:
+        kinds = [k for k in kinds if k != "*"]
+        if not kinds:
+            return "*"
+        if any(k is None for k in kinds):
+            return None
+        real = {k for k in kinds if k != "EMPTY"}
+        if not real:
+            return "EMPTY"
+        if len(real) == 1:
+            return next(iter(real))
+        return None
+
+    def is_peer(self, e: ast.AST) -> bool:
+        e = resolve(self.fi, e)
+        return isinstance(e, ast.Name) and e.id in self.peers
+
+    def bound(self, e: ast.AST | None, depth: int = 0) -> bool:  # noqa: C901, PLR0911
+        e = strip_cast(e) if e is not None else None
+        if e is None or depth > 6:
+            return False
+        cv = const_value(e)
+        if cv is not NOCONST:
+            return cv == 0 and not isinstance(cv, bool)
+        if isinstance(e, ast.Name):
+            if e.id in self.fi.params():
+                return self.param_kinds.get(e.id) == "BOUND" and not local_defs(self.fi, e.id)
+            ds = local_defs(self.fi, e.id)
+            return bool(ds) and all(v is not None and i is None and self.bound(v, depth + 1) for s, v, i in ds)
+        if isinstance(e, ast.Call) and chain(e.func) == "self.permissions.get" and not e.keywords and len(e.args) == 2:
+            return self.is_peer(e.args[0]) and const_value(e.args[1]) == 0 and not isinstance(const_value(e.args[1]), bool)
+        if isinstance(e, ast.Subscript) and norm(e.value) == "self.permissions" and not isinstance(e.slice, ast.Slice):
+            return self.is_peer(e.slice)
+        if isinstance(e, ast.IfExp):
+            return self.bound(e.body, depth + 1) and self.bound(e.orelse, depth + 1)
+        if isinstance(e, ast.BoolOp) and isinstance(e.op, ast.Or):
+            # permissions.get(peer) or 0: a missing (None) or zero entry falls through to the next alternative
+            def maybe(x: ast.AST) -> bool:
+                return isinstance(x, ast.Call) and chain(x.func) == "self.permissions.get" and not x.keywords and self.is_peer(x.args[0]) and \
+                    (len(x.args) == 1 or (len(x.args) == 2 and const_value(x.args[1]) is None))
+            return all(maybe(x) or self.bound(x, depth + 1) for x in e.values[:-1]) and self.bound(e.values[-1], depth + 1)
+        if isinstance(e, ast.Call) and chain(e.func) == "min" and len(e.args) == 2 and not e.keywords:
+            def length(x: ast.AST) -> bool:
+                return isinstance(x, ast.Call) and chain(x.func) == "len" and len(x.args) == 1
+            a, b = e.args
+            return (self.bound(a, depth + 1) and (length(b) or self.bound(b, depth + 1))) or (length(a) and self.bound(b, depth + 1))
+        fr = _follow(self.ctx, self.fi, e, "b_")
+        if fr is not None and self.depth < 3:
+            sub = self.sub(fr)
+            rets = [r for r in walk_no_nested(fr.hf.node) if isinstance(r, ast.Return)]
+            falls = [u for u, lab in self.ctx.cfg(fr.hf).exit.pred if not isinstance(u.ast, ast.Return)]
+            return sub is not None and bool(rets) and not falls and all(r.value is not None and sub.bound(r.value) for r in rets)
+        return False
+
+    def sub(self, fr: _Frame) -> "_Prov | None":
+        """the same question inside a followed helper: its parameters take the kinds of the arguments"""
+        if fr.hf.cls is None or fr.hf.cls is not self.fi.cls:
+            return None
+        peers, kinds = set(), {}
+        for name, a in fr.bind.items():
+            if name in fr.locals:
+                continue                          # rebound parameter: a local of the helper
+            if self.is_peer(a):
+                peers.add(name)
+            elif self.bound(a):
+                kinds[name] = "BOUND"
+            else:
+                kinds[name] = self.kind(a, {})
+        return _Prov(self.ctx, fr.hf, peers, kinds, self.depth + 1)
+
+    def local_kind(self, name: str) -> str | None:  # noqa: C901, PLR0912
+        if name in self.memo:
+            return self.memo[name]
+        if name in self.busy:
+            return "*"
+        self.busy.add(name)
+        kinds = []
+        if name in self.fi.params():
+            kinds.append(self.param_kinds.get(name))
+        for st, v, idx in local_defs(self.fi, name):
+            if isinstance(st, (ast.For, ast.AsyncFor)):
+                kinds.append(self.bind_target(st.target, self.kind(st.iter, {})).get(name))
+            elif isinstance(st, ast.AugAssign):
+                kinds.append(self.kind(st.value, {}) if isinstance(st.op, ast.Add) else None)
+            elif v is not None and idx is None:
+                kinds.append(self.kind(v, {}))
+            else:
+                kinds.append(None)
+        # in-place updates
+        for n in walk_no_nested(self.fi.node):
+            if isinstance(n, ast.Call) and isinstance(n.func, ast.Attribute) and isinstance(n.func.value, ast.Name) and n.func.value.id == name:
+                m = n.func.attr
+                if m in ("append", "add", "appendleft") and len(n.args) == 1:
+                    k = self.kind(n.args[0], {})
+                    kinds.append({"BYTES": "CHUNKS", "TOKEN": "TOKENS"}.get(k))
+                elif m == "insert" and len(n.args) == 2:
+                    kinds.append({"BYTES": "CHUNKS", "TOKEN": "TOKENS"}.get(self.kind(n.args[1], {})))
+                elif m in ("extend", "update", "extendleft") and len(n.args) == 1:
+                    k = self.kind(n.args[0], {})
+                    kinds.append(k if k in ("CHUNKS", "TOKENS", "EMPTY") else None)
+                elif m in ("__setitem__", "__iadd__", "__setslice__"):
+                    kinds.append(None)
+            elif isinstance(n, ast.Subscript) and isinstance(n.ctx, ast.Store) and isinstance(n.value, ast.Name) and n.value.id == name:
+                kinds.append(None)
+        self.busy.discard(name)
+        k = self.unify(kinds) if kinds else None
+        if k != "*" and not self.busy:
+            self.memo[name] = k
+        return k
+
+    def bind_target(self, target: ast.AST, iter_kind: str | None) -> dict:
+        """kinds of the names a loop / comprehension target binds"""
+        if isinstance(target, ast.Name):
+            return {target.id: {"TOKENS": "TOKEN", "CHUNKS": "BYTES"}.get(iter_kind)}
+        out = {n.id: None for n in ast.walk(target) if isinstance(n, ast.Name)}
+        if iter_kind == "PAIRS" and isinstance(target, (ast.Tuple, ast.List)) and len(target.elts) == 2 and isinstance(target.elts[1], ast.Name):
+            out[target.elts[1].id] = "TOKEN"
+        return out
+
+    def kind(self, e: ast.AST | None, env: dict) -> str | None:  # noqa: C901, PLR0911, PLR0912
+        e = strip_cast(e) if e is not None else None
+        if e is None:
+            return None
+        if isinstance(e, ast.Constant):
+            return "BYTES" if isinstance(e.value, bytes) else None
+        if isinstance(e, ast.Name):
+            if e.id in env:
+                return env[e.id]
+            return self.local_kind(e.id)
+        if isinstance(e, (ast.List, ast.Tuple, ast.Set)):
+            if not e.elts:
+                return "EMPTY"
+            ks = {self.kind(x, env) for x in e.elts}
+            return "CHUNKS" if ks == {"BYTES"} else "TOKENS" if ks == {"TOKEN"} else None
+        if isinstance(e, ast.IfExp):
+            return self.unify([self.kind(e.body, env), self.kind(e.orelse, env)])
+        if isinstance(e, ast.BinOp) and isinstance(e.op, ast.Add):
+            k = self.unify([self.kind(e.left, env), self.kind(e.right, env)])
+            return k if k in ("BYTES", "CHUNKS", "TOKENS", "EMPTY", "*") else None
+        if isinstance(e, ast.Subscript):
+            if isinstance(e.slice, ast.Slice):
+                if norm(e.value) == "self.token_chain":
+                    step = const_value(e.slice.step) if e.slice.step is not None else 1
+                    return "TOKENS" if isinstance(step, int) and not isinstance(step, bool) and step > 0 and self.bound(_sub_env(e.slice.upper, env)) else None
+                k = self.kind(e.value, env)
+                return k if k in ("BYTES", "CHUNKS", "TOKENS", "EMPTY") else None
+            k = self.kind(e.value, env)
+            return {"TOKENS": "TOKEN", "CHUNKS": "BYTES"}.get(k)
+        if isinstance(e, (ast.ListComp, ast.SetComp, ast.GeneratorExp)):
+            env2 = dict(env)
+            for g in e.generators:
+                env2.update(self.bind_target(g.target, self.kind(g.iter, env2)))
+            return {"BYTES": "CHUNKS", "TOKEN": "TOKENS"}.get(self.kind(e.elt, env2))
+        if isinstance(e, ast.Call):
+            c = chain(e.func)
+            if isinstance(e.func, ast.Attribute) and e.func.attr == "get_plaintext_signed" and not e.args and not e.keywords:
+                return "BYTES" if self.kind(e.func.value, env) == "TOKEN" else None
+            if isinstance(e.func, ast.Attribute) and e.func.attr == "join" and len(e.args) == 1 and not e.keywords and isinstance(const_value(e.func.value), bytes):
+                return "BYTES" if self.kind(e.args[0], env) in ("CHUNKS", "EMPTY") else None
+            if c in ("list", "tuple", "sorted", "reversed", "iter", "deque", "collections.deque") and len(e.args) == 1:
+                k = self.kind(e.args[0], env)
+                return k if k in ("CHUNKS", "TOKENS", "EMPTY") else None
+            if c in ("list", "tuple", "deque", "collections.deque") and not e.args and not e.keywords:
+                return "EMPTY"
+            if c in ("bytes", "bytearray") and not e.keywords:
+                return "BYTES" if not e.args or (len(e.args) == 1 and self.kind(e.args[0], env) == "BYTES") else None
+            if c == "MissingResponsePayload" and not any(isinstance(x, ast.Starred) for x in e.args):
+                out = arg(e, 0, "tokens")
+                return "PAYLOAD" if out is not None and len(e.args) + len(e.keywords) == 1 and self.kind(out, env) == "BYTES" else None
+            if c == "enumerate" and e.args and len(e.args) <= 2:
+                return "PAIRS" if self.kind(e.args[0], env) == "TOKENS" else None
+            if c in ("islice", "itertools.islice") and e.args:
+                k = self.kind(e.args[0], env)
+                return k if k in ("CHUNKS", "TOKENS") else None
+            if env:
+                return None                       # a helper called with comprehension variables: not followed
+            fr = _follow(self.ctx, self.fi, e, "p_", generators=True)
+            if fr is not None and self.depth < 3:
+                sub = self.sub(fr)
+                if sub is None:
+                    return None
+                if _is_generator(fr.hf.node):
+                    ys = [n for n in walk_no_nested(fr.hf.node) if isinstance(n, (ast.Yield, ast.YieldFrom))]
+                    ks = [sub.kind(y.value, {}) if isinstance(y, ast.Yield) else {"CHUNKS": "BYTES", "TOKENS": "TOKEN"}.get(sub.kind(y.value, {})) for y in ys]
+                    return {"BYTES": "CHUNKS", "TOKEN": "TOKENS"}.get(self.unify(ks))
+                rets = [r for r in walk_no_nested(fr.hf.node) if isinstance(r, ast.Return)]
+                falls = [u for u, lab in self.ctx.cfg(fr.hf).exit.pred if not isinstance(u.ast, ast.Return)]
+                if not rets or falls:
+                    return None
+                k = self.unify([sub.kind(r.value, {}) for r in rets])
+                return None if k == "*" else k
+        return None
+
+
+def _sub_env(e: ast.AST | None, env: dict) -> ast.AST | None:
+    """a bound expression must not read comprehension variables"""
+    if e is None or any(isinstance(n, ast.Name) and n.id in env for n in ast.walk(e)):
+        return None
+    return e
+
+
 def rule_permitted(ctx: Ctx) -> None:  # noqa: C901, PLR0912
     repo = ctx.repo
     fi = repo.method("IdentityCommunity", "on_request_missing", IC)
     from .c01 import classify_handler
     ctx.check(classify_handler(ctx, fi) == "authenticated", "permitted-range", fi, fi.node, "on_request_missing is authenticated", "token requests are not authenticated")
     peer = fi.params()[1]
-    snd = [c for c in calls(fi, "self.ez_send") if mentions(c, "MissingResponsePayload")]
+
+    def is_send(c: ast.Call) -> bool:
+        return chain(c.func) == "self.ez_send" and mentions(c, "MissingResponsePayload")
+
+    def provenances(owner: FuncInfo, depth: int = 0) -> list:
+        """one _Prov per way the owner of a send is reached from the handler"""
+        if owner.node is fi.node:
+            return [_Prov(ctx, fi, {peer})]
+        out = []
+        if depth < 3:
+            for m, g, c in repo.callers_of_name(owner.name):
+                if g is None or owner not in repo.resolve_call(g, c):
+                    continue
+                fr = _follow(ctx, g, c, "q_", generators=True)
+                for up in provenances(g, depth + 1):
+                    sub = up.sub(fr) if fr is not None else None
+                    out.append(sub)
+        return out
+    snd = _sites_below(ctx, fi, is_send)
     ctx.anchor(snd, "MissingResponsePayload send")
-    for c in snd:
-        pl = resolve(fi, arg(c, 1))
-        out = arg(pl, 0) if isinstance(pl, ast.Call) and call_name(pl) == "MissingResponsePayload" else None
-        ok = _x(fi, arg(c, 0)) == peer and isinstance(out, ast.Name) and not local_defs(fi, peer)
-        if ok:
-            # every definition of `out` is b"" or out += <serialized token of the permitted enumeration>
-            for st, v, _ in local_defs(fi, out.id):
-                added = None
-                if isinstance(st, ast.AugAssign) and isinstance(st.op, ast.Add):
-                    added = st.value
-                elif isinstance(v, ast.BinOp) and isinstance(v.op, ast.Add) and isinstance(v.left, ast.Name) and v.left.id == out.id:
-                    added = v.right
-                if added is not None:
-                    src = resolve(fi, added)
-                    good = isinstance(src, ast.Call) and call_name(src) == "get_plaintext_signed" and isinstance(src.func, ast.Attribute) \
-                        and isinstance(src.func.value, ast.Name) and not src.args and not src.keywords
-                    if good:
-                        tokvar = src.func.value.id
-                        tdefs = local_defs(fi, tokvar)
-                        loop = tdefs[0][0] if len(tdefs) == 1 and isinstance(tdefs[0][0], ast.For) else None
-                        good = loop is not None and loop in list(ancestors(st))
-                        if good:
-                            it = resolve(fi, loop.iter)
-                            if isinstance(it, ast.Call) and chain(it.func) == "enumerate" and it.args and not it.keywords:
-                                good = isinstance(loop.target, ast.Tuple) and len(loop.target.elts) == 2 and norm(loop.target.elts[1]) == tokvar
-                                base = it.args[0]
-                            else:
-                                good = isinstance(loop.target, ast.Name)
-                                base = it
-                            good = good and _permitted_tokens(fi, base, peer)
-                    ok = ok and good
-                else:
-                    ok = ok and v is not None and isinstance(st, (ast.Assign, ast.AnnAssign)) and const_value(v) == b""
-        ctx.check(ok, "permitted-range", fi, c, "response bytes derive only from token_chain[:permissions.get(peer, 0)] and go to the requester",
+    for owner, c, _fs, lift in snd:
+        provs = provenances(owner)
+        if not provs or any(pv is None for pv in provs):
+            raise AnalysisError(f"undecided: how {owner.qualname} (sends MissingResponsePayload) is reached from on_request_missing")
+        ok = all(arg(c, 0) is not None and pv.is_peer(arg(c, 0)) and pv.kind(arg(c, 1), {}) == "PAYLOAD" for pv in provs)
+        ctx.check(ok, "permitted-range", owner, c, "response bytes derive only from token_chain[:permissions.get(peer, 0)] and go to the requester",
                   "tokens beyond the position opened to the requester (or to an unpermitted peer) can be handed out")
     n = 0
+    writer = "IdentityCommunity.request_attestation_advertisement"
+    # every community (one per pseudonym) starts with its own, empty permission map
+    init = repo.method("IdentityCommunity", "__init__", IC)
+    icfg = ctx.cfg(init)
+    fresh = []
+    for st, t in stores(init, "self.permissions"):
+        v = _stored_value(st, t)
+        if v is not None and _fresh_empty_mapping(v):
+            fresh.extend(icfg.nodes_for(st))
+    for c in calls(init):
+        # ... or a private helper that only __init__ calls does (always, when it is called)
+        fr = _follow(ctx, init, c, "i_")
+        if fr is not None and fr.hf.cls is init.cls and _only_reached_from(ctx, fr.hf, (init.qualname,)):
+            hcfg = ctx.cfg(fr.hf)
+            made = [x for st, t in stores(fr.hf, "self.permissions") if _stored_value(st, t) is not None and _fresh_empty_mapping(_stored_value(st, t)) for x in hcfg.nodes_for(st)]
+            if made and hcfg.must_complete(hcfg.exit, made):
+                fresh.extend(icfg.nodes_for(c))
+    per_instance = bool(fresh) and icfg.must_complete(icfg.exit, fresh)
+    shared = repo.cls("IdentityCommunity", IC).lookup_attr("permissions")
+    if shared is not None:
+        n += 1                                     # the class-level definition is a place where the map is made
+    ctx.check(per_instance, "permitted-range", init, (parent(shared) if isinstance(parent(shared), ast.stmt) else shared) if shared is not None and not per_instance else init.node,
+              "IdentityCommunity.__init__ gives every community its own empty permission map (self.permissions = {})",
+              "IdentityCommunity.permissions is not created afresh in __init__" + (f" (it is the class-level object `{norm(shared)}`, shared by all instances)" if shared is not None else "")
+              + ": the communities of all pseudonyms in the process then read one permission map, so what the user of one pseudonym opened to a peer "
+              "also hands that peer the token chain of every other pseudonym in on_request_missing")
     for m, f2, a in repo.attribute_uses("permissions"):
         if not m.relpath.startswith("ipv8/attestation/identity/"):
             continue
         p = parent(a)
         w = isinstance(a.ctx, ast.Store) or (isinstance(p, ast.Subscript) and isinstance(p.ctx, (ast.Store, ast.Del))) or \
-            (isinstance(p, ast.Attribute) and p.attr in ("update", "setdefault", "pop", "clear", "popitem", "__setitem__", "__delitem__") and isinstance(parent(p), ast.Call))
+            (isinstance(p, ast.Attribute) and p.attr in _MUTATORS and isinstance(parent(p), ast.Call))
         if not w:
             continue
         n += 1
         st = enclosing_stmt(a)
         if f2 is not None and f2.qualname == "IdentityCommunity.__init__":
+            v = _stored_value(st, a) if isinstance(a.ctx, ast.Store) else None
+            ctx.check(v is not None and _fresh_empty_mapping(v), "permitted-range", f2, st, "__init__ only creates the (empty) permission map",
+                      "IdentityCommunity.__init__ fills or shares the permission map instead of starting from an empty one of its own")
             continue
-        ok = f2 is not None and f2.qualname == "IdentityCommunity.request_attestation_advertisement" and isinstance(st, ast.Assign) \
-            and len(st.targets) == 1 and norm(st.targets[0]) == f"self.permissions[{f2.params()[1]}]" and not local_defs(f2, f2.params()[1]) \
-            and _x(f2, st.value) == "len(self.token_chain)"
+        # the write as (key, value): permissions[k] = v / permissions.update({k: v}) / permissions.__setitem__(k, v)
+        key = val = None
+        call = parent(p) if isinstance(p, ast.Attribute) else None
+        if isinstance(st, ast.Assign) and len(st.targets) == 1 and st.targets[0] is p and isinstance(p, ast.Subscript) and not isinstance(p.slice, ast.Slice):
+            key, val = p.slice, st.value
+        elif isinstance(call, ast.Call) and isinstance(st, ast.Expr) and st.value is call and not call.keywords:
+            if p.attr == "update" and len(call.args) == 1 and isinstance(call.args[0], ast.Dict) and len(call.args[0].keys) == 1 and call.args[0].keys[0] is not None:
+                key, val = call.args[0].keys[0], call.args[0].values[0]
+            elif p.attr == "__setitem__" and len(call.args) == 2:
+                key, val = call.args
+        ok = f2 is not None and key is not None and norm(a.value) == "self"
+        if ok and f2.qualname == writer:
+            kk = resolve(f2, key)
+            ok = isinstance(kk, ast.Name) and kk.id == f2.params()[1] and not local_defs(f2, f2.params()[1]) and _x(f2, val) == "len(self.token_chain)"
+        elif ok:
+            # a private helper that only request_attestation_advertisement calls, writing for the peer it was given
+            kk = resolve(f2, key)
+            ok = _only_reached_from(ctx, f2, (writer,)) and isinstance(kk, ast.Name) and _x(f2, val) == "len(self.token_chain)" and _param_is_callers_peer(ctx, f2, kk.id, writer)
         ctx.check(ok, "permitted-range", f2 or m.relpath, st, "permissions written only for the peer chosen by the user, with the current chain length",
                   "the disclosure permission of a peer is written outside request_attestation_advertisement")
     ctx.floor("permitted-range", n, 2)
+
+
+def _stored_value(st: ast.AST, target: ast.AST) -> ast.AST | None:
+    """the expression a (possibly annotated / tuple) assignment stores into `target`"""
+    if isinstance(st, ast.AnnAssign):
+        return st.value if st.target is target else None
+    if not isinstance(st, ast.Assign) or len(st.targets) != 1:
+        return None
+    t = st.targets[0]
+    if t is target:
+        return st.value
+    if isinstance(t, (ast.Tuple, ast.List)) and isinstance(st.value, (ast.Tuple, ast.List)) and len(t.elts) == len(st.value.elts) \
+            and not any(isinstance(x, ast.Starred) for x in [*t.elts, *st.value.elts]):
+        for a, b in zip(t.elts, st.value.elts):
+            if a is target:
+                return b
+    return None
+
+
+def _fresh_empty_mapping(v: ast.AST) -> bool:
+    v = strip_cast(v)
+    if isinstance(v, ast.Dict):
+        return not v.keys
+    if isinstance(v, ast.Call) and not v.keywords:
+        c = chain(v.func)
+        if c in ("dict", "OrderedDict", "collections.OrderedDict", "WeakKeyDictionary", "weakref.WeakKeyDictionary"):
+            return not v.args
+        if c in ("defaultdict", "collections.defaultdict"):
+            return len(v.args) == 1 and norm(v.args[0]) in ("int", "lambda: 0")
+    return False
+
+
+def _param_is_callers_peer(ctx: Ctx, f2: FuncInfo, name: str, writer: str, depth: int = 0) -> bool:
+    """the (never rebound) parameter `name` of helper f2 is, at every call, the peer parameter of `writer`"""
+    if name not in f2.params() or local_defs(f2, name) or depth > 3:
+        return False
+    sites = [(g, c) for m, g, c in ctx.repo.callers_of_name(f2.name) if g is not None and f2 in ctx.repo.resolve_call(g, c)]
+    for g, c in sites:
+        fr = _Frame(g, c, f2, "w_")
+        a = resolve(g, fr.bind.get(name)) if fr.ok and name in fr.bind else None
+        if not isinstance(a, ast.Name) or local_defs(g, a.id):
+            return False
+        if g.qualname == writer:
+            if a.id != g.params()[1]:
+                return False
+        elif not _param_is_callers_peer(ctx, g, a.id, writer, depth + 1):
+            return False
+    return bool(sites)
 
 
 def run(ctx: Ctx) -> None:
@@ -782,6 +2350,13 @@ WITNESSES = [
      "old": "        if self.pseudonym_manager.add_attestation(peer.public_key, attestation):", "new": "        if self.pseudonym_manager.add_attestation(attestation.get_hash() and peer.public_key or self.my_peer.public_key, attestation):"},
     {"name": "tokens handed out beyond permission", "file": IC, "rule": "permitted-range",
      "old": "        permitted = self.token_chain[:self.permissions.get(peer, 0)]", "new": "        permitted = self.token_chain[:self.permissions.get(peer, len(self.token_chain))]"},
+    {"name": "permission map shared by all communities (class-level mutable default)", "rule": "permitted-range",
+     "edits": [{"file": IC, "old": "        self.permissions: dict[Peer, int] = {}  # Map of peer to the highest index\n", "new": ""},
+               {"file": IC, "old": "    settings_class = IdentitySettings\n", "new": "    settings_class = IdentitySettings\n    permissions: dict[Peer, int] = {}\n"}]},
+    {"name": "verify() answers from a remembered verdict, whatever the key", "file": "ipv8/attestation/signed_object.py", "rule": "store-only-valid",
+     "old": "        return self.crypto.is_valid_signature(public_key, self.get_plaintext(), self.signature)",
+     "new": "        if getattr(self, \"_verified_before\", False):\n            return True\n"
+            "        self._verified_before = self.crypto.is_valid_signature(public_key, self.get_plaintext(), self.signature)\n        return self._verified_before"},
     {"name": "permission granted on request", "file": IC, "rule": "permitted-range",
      "old": "        out = b\"\"\n        permitted = self.token_chain", "new": "        out = b\"\"\n        self.permissions.setdefault(peer, request.known + 1)\n        permitted = self.token_chain"},
 ]
